@@ -57,7 +57,18 @@ LEVEL_TEXT = (
     "domain - C03's derivative identities, which need that _convert_inf replaces nothing but +-inf); explored: intervals "
     "ending 1e-2 .. 1e-4 from either end of the domain of every trimming transform (Handy m = 1..4, HandyMod, Becke, Knowles, "
     "MultiExp; trim_inf True / False / default), orders 1-3, through the transform against the exact solution and the direct "
-    "solve, where the second and third derivative of the map are finite but exceed 1e16."
+    "solve, where the second and third derivative of the map are finite but exceed 1e16. "
+    "ROUND 4 (generators only): every audited callable (every transform x orders 1-3 x IVP / BVP, derivatives requested and not) is "
+    "also evaluated on descending arrays, views with negative / non-unit stride, read-only arrays, arrays with duplicates and with "
+    "all points equal, 1 / 2 / `order` points, single-precision points, and on lists, tuples, 0-d arrays, Python floats, 2-D "
+    "shapes with unequal dimensions and empty arrays (an answer that is given must be right, column by column equal to the "
+    "evaluation of the same callable on the sorted distinct points); transform parameters as Python ints / NumPy integers / "
+    "np.float64 / 0-d arrays (bit-identical answers) and np.float32; positional / keyword / omitted / explicit-None / "
+    "explicit-default forms of both public calls (bit-identical answers); one array object serving as y0, boundary values, mesh, "
+    "evaluation points and guess, as views into larger caller arrays whose every byte is compared afterwards; bool / longdouble / "
+    "complex-with-zero-imaginary-part / 0-d / kind-changing values returned by the right-hand side and the coefficient callables; "
+    "accepted solves before and after eleven kinds of calls that end in an exception (bit-identical). The oracle and the "
+    "correspondence run as independent parts (an exception in one part is recorded and the others still run)."
 )
 TECHNIQUE = ("Lean 4 proof over regenerated source text (transformation algebra, derivative matrices, explicit form, "
              "the bodies of the public functions and their callbacks, end-to-end under the contracts of the SciPy primitives) + differential correspondence of the private helpers and of "
@@ -209,6 +220,14 @@ ASSUMPTIONS = [
     "1e-5 .. 1e+7: its acceptance test is relative to 1 + |dY/dr| and dY/dr is ~1e-10; e.g. HandyRTransform(0, 1, 4), first order, "
     "20 nodes up to x = 0.99, tol 1e-8: y off by 0.6) - the BVP cases of this class assert y only (2e-5) for HandyMod, Knowles, "
     "Becke (d = 1e-2), Handy m = 1 (d = 1e-2)",
+    "round 4, measured on the unchanged tree: through a transform the returned callable accepts 1-D arrays only (lists / tuples raise "
+    "TypeError, 0-d arrays and Python floats IndexError unless no_derivatives=True, 2-D arrays ValueError / TypeError, an empty array "
+    "ValueError from SciPy's dense output of solve_ivp): these kinds are 'right or rejected'; np.float32 transform parameters make "
+    "rtransform compute in single precision (rows off by up to 1e-6; asked 5e-5; int / np.int64 / np.float64 / 0-d parameters are "
+    "bit-identical); a one-element-array parameter is rejected (TypeError / ValueError); complex coefficients are rejected "
+    "(UFuncTypeError, a TypeError) even with a vanishing imaginary part, a complex right-hand side with a vanishing imaginary part is "
+    "accepted with NumPy's ComplexWarning (a non-zero imaginary part would be dropped by SciPy's real integrators: outside the "
+    "property); single-precision evaluation points only for the ordinary problems of the catalogue (y to 5e-5)",
     "the Bell loop of _transform_ode_from_derivs for orders above 3 is carried and compared although it is outside the property "
     "(solve_ode_ivp / solve_ode_bvp reject order > 3 together with a transform); no theorem depends on what it computes, so a change "
     "there is regenerated and compared, not reported. Observation: for five or more coefficients rows 1-3 of coeff_b do not "
@@ -388,6 +407,7 @@ def transforms_catalogue():
     return cat
 
 
+_CATALOGUE = transforms_catalogue()
 SOLVE_TIME_LIMIT = 30.0   # seconds per solve; on the unchanged tree every solve takes < 2 s
 
 
@@ -690,291 +710,304 @@ def corr(ctx: Ctx):
     sympy_bell = importlib.import_module("sympy").bell
     rng = ctx.rng
 
-    # -- 1. the model of sympy.bell ------------------------------------------------------------------------------
-    cases, lines = [], []
-    for n in range(0, 7):
-        for k in range(0, n + 2):
-            for _ in range(ctx.n(1, 4)):
-                L = max(1, n - k + 1) + rng.randrange(0, 2)
-                ds = [rng.uniform(-2, 2) for _ in range(L)]
-                cases.append((n, k, ds))
-                lines.append(f"C15.bell {n} {k} {fvec(ds)}")
-    for (n, k, ds), ans in zip(cases, driver_batch(lines)):
-        want = float(sympy_bell(n, k, ds))
-        got = _ok_float(ans)
-        scale = max(1.0, max(abs(d) for d in ds) ** max(n, 1)) * math.factorial(max(n, 1))
-        ctx.count(["bell", n, k, ds], nontrivial=(1 <= k <= n and n >= 2), tag=f"bell:n={n}")
-        if got is None or not close(got, want, rtol=1e-11, scale=scale):
-            ctx.fail("corr", "sympy.bell", f"bell({n},{k},{ds}): sympy {want}, model {ans}",
-                     witness={"n": n, "k": k, "symbols": ds, "sympy": want, "model": ans})
+    def part_bell():
+        # -- 1. the model of sympy.bell ------------------------------------------------------------------------------
+        cases, lines = [], []
+        for n in range(0, 7):
+            for k in range(0, n + 2):
+                for _ in range(ctx.n(1, 4)):
+                    L = max(1, n - k + 1) + rng.randrange(0, 2)
+                    ds = [rng.uniform(-2, 2) for _ in range(L)]
+                    cases.append((n, k, ds))
+                    lines.append(f"C15.bell {n} {k} {fvec(ds)}")
+        for (n, k, ds), ans in zip(cases, driver_batch(lines)):
+            want = float(sympy_bell(n, k, ds))
+            got = _ok_float(ans)
+            scale = max(1.0, max(abs(d) for d in ds) ** max(n, 1)) * math.factorial(max(n, 1))
+            ctx.count(["bell", n, k, ds], nontrivial=(1 <= k <= n and n >= 2), tag=f"bell:n={n}")
+            if got is None or not close(got, want, rtol=1e-11, scale=scale):
+                ctx.fail("corr", "sympy.bell", f"bell({n},{k},{ds}): sympy {want}, model {ans}",
+                         witness={"n": n, "k": k, "symbols": ds, "sympy": want, "model": ans})
 
-    # -- 2. _transform_ode_from_derivs / _transform_ode_from_rtransform ------------------------------------------
-    cases, lines = [], []
-    for it in range(ctx.n(60, 1500)):
-        order = 1 + it % 3
-        cs = _rand_coeffs(rng, order)
-        npts = rng.choice([1, 1, 2, 3, 5])
-        use_real = rng.random() < 0.4
-        if use_real:
-            tf, (lo, hi) = rng.choice(_real_transforms())
-        else:
-            tf, (lo, hi) = FakeTF(rng), (-2.0, 2.0)
-        x = np.array([rng.uniform(lo, hi) for _ in range(npts)])
-        if use_real or rng.random() < 0.5:
-            got = ode._transform_ode_from_rtransform([c for c, _ in cs], tf, x)
-            via = "rtransform"
-        else:
-            got = ode._transform_ode_from_derivs([c for c, _ in cs], [tf.deriv, tf.deriv2, tf.deriv3], x)
-            via = "derivs"
-        for i in range(npts):
-            a = _eval_coeffs(cs, x[i])
-            d = [float(np.atleast_1d(f(np.array([x[i]])))[0]) for f in (tf.deriv, tf.deriv2, tf.deriv3)]
-            cases.append((order, via, type(tf).__name__, a, d, [float(v) for v in got[:, i]], any(k == "fn" for _, k in cs)))
-            lines.append(f"C15.coeffb {fvec(a)} {f2b(d[0])} {f2b(d[1])} {f2b(d[2])}")
-    for (order, via, tfn, a, d, impl, hasfn), ans in zip(cases, driver_batch(lines)):
-        scale = max(abs(v) for v in a) * max(1.0, abs(d[0])) ** order * max(1.0, abs(d[1]), abs(d[2])) * 3
-        ctx.count(["coeffb", a, d], nontrivial=(order >= 2 and d[1] != 0.0) or hasfn, tag=f"coeffb:order{order}:{via}")
-        if not _vec_close(_ok_vec(ans), impl, scale):
-            ctx.fail("corr", f"_transform_ode_from_derivs:order{order}",
-                     f"coeff_b for a={a}, derivs={d} ({tfn}): implementation {impl}, model {ans if not ans.startswith('ok') else _ok_vec(ans)}",
-                     witness={"order": order, "a": a, "derivs": d, "impl": impl, "model": _ok_vec(ans)})
-    # a non-number, non-callable coefficient is rejected
-    try:
-        ode._evaluate_coeffs_on_points(np.array([0.1]), [1.0, "x"])
-        ctx.fail("corr", "_evaluate_coeffs_on_points:type", "a str coefficient was not rejected with TypeError")
-    except TypeError:
-        pass
-    ctx.count(["coeff-type-error"], nontrivial=True, tag="coeffs:type-error")
 
-    # -- 3. _derivative_transformation_matrix --------------------------------------------------------------------
-    cases, lines = [], []
-    for it in range(ctx.n(60, 1200)):
-        numb = rng.choice([1, 2, 3, 3, 3, 4])
-        order = rng.randrange(0, numb + 2)
-        ds = [rng.uniform(-2, 2) for _ in range(numb)]
-        point = rng.choice([rng.uniform(-1, 1), np.float64(rng.uniform(-1, 1)), rng.randrange(-2, 3)])
-        funcs = [(lambda p, v=v: v) for v in ds]
-        try:
-            m = ode._derivative_transformation_matrix(funcs, point, order)
-            impl = ("ok", [[float(v) for v in row] for row in m])
-        except ValueError:
-            impl = ("value-error", None)
-        cases.append((order, ds, impl))
-        lines.append(f"C15.dmat {order} {fvec(ds)}")
-    for (order, ds, impl), ans in zip(cases, driver_batch(lines)):
-        ctx.count(["dmat", order, ds], nontrivial=order >= 2 or impl[0] != "ok", tag=f"dmat:order{order}:{impl[0]}")
-        if impl[0] != "ok":
-            good = ans == impl[0]
-        else:
-            good = ans.startswith("ok")
-            if good:
-                t = Tokens(ans)
-                t.tok()
-                mm = t.fmat()
-                scale = max(1.0, max(abs(d) for d in ds)) ** max(order, 1) * 6
-                good = len(mm) == order and all(_vec_close(r1, r2, scale) for r1, r2 in zip(mm, impl[1]))
-        if not good:
-            ctx.fail("corr", f"_derivative_transformation_matrix:order{order}",
-                     f"matrix for derivs={ds}, order={order}: implementation {impl}, model {ans}",
-                     witness={"order": order, "derivs": ds, "impl": impl, "model": ans})
-    for bad in (np.array([0.1]), "0.1", None):
-        try:
-            ode._derivative_transformation_matrix([lambda p: 1.0], bad, 1)
-            ctx.fail("corr", "_derivative_transformation_matrix:type", f"point {bad!r} was not rejected with TypeError")
-        except TypeError:
-            pass
-        ctx.count(["dmat-type", repr(bad)], nontrivial=True, tag="dmat:type-error")
-
-    # -- 4. _rearrange_to_explicit_ode ---------------------------------------------------------------------------
-    cases, lines = [], []
-    for it in range(ctx.n(40, 800)):
-        K = 1 + it % 5
-        npts = rng.choice([1, 2, 4])
-        y = np.array([[rng.uniform(-2, 2) for _ in range(npts)] for _ in range(K)])
-        b = np.array([[rng.uniform(-2, 2) for _ in range(npts)] for _ in range(K + 1)])
-        b[-1] = np.where(np.abs(b[-1]) < 0.2, 0.7, b[-1])
-        fx = np.array([rng.uniform(-3, 3) for _ in range(npts)])
-        fx0 = fx.copy()
-        got = ode._rearrange_to_explicit_ode(y, b, fx)
-        if not np.array_equal(fx, fx0):
-            ctx.info("_rearrange_to_explicit_ode modified the right-hand-side array in place (C20's business)")
-        for i in range(npts):
-            cases.append((K, [float(v) for v in y[:, i]], [float(v) for v in b[:, i]], float(fx0[i]), float(got[i])))
-            lines.append(f"C15.explicit {fvec(y[:, i])} {fvec(b[:, i])} {f2b(fx0[i])}")
-    for (K, y, b, fx, impl), ans in zip(cases, driver_batch(lines)):
-        scale = (abs(fx) + sum(abs(p * q) for p, q in zip(b, y))) / abs(b[-1])
-        ctx.count(["explicit", y, b, fx], nontrivial=K >= 2, tag=f"explicit:order{K}")
-        got = _ok_float(ans)
-        if got is None or not close(got, impl, rtol=1e-11, scale=scale):
-            ctx.fail("corr", f"_rearrange_to_explicit_ode:order{K}",
-                     f"explicit form y={y}, coeff_b={b}, fx={fx}: implementation {impl}, model {ans if got is None else got}",
-                     witness={"y": y, "coeff_b": b, "fx": fx, "impl": impl, "model": got})
-
-    # -- 5. the callbacks and data solve_ode_ivp / solve_ode_bvp hand to SciPy, and the callable they return -------
-    class Res:
-        status = 0
-
-        def __init__(self, K, ph):
-            self.K, self.ph = K, ph
-
-        def sol(self, r):
-            r = np.asarray(r, dtype=float)
-            return np.array([np.sin(1.3 * r + self.ph + k) * (1 + 0.5 * k) for k in range(self.K)])
-
-    rec = {}
-
-    def fake_ivp(func, t_span, y0=None, **kw):
-        rec.update(kind="ivp", func=func, t_span=[float(t) for t in t_span], y0=[float(v) for v in y0], kw=kw)
-        return Res(len(y0), rec["ph"])
-
-    def fake_bvp(func, bc, x, y=None, **kw):
-        rec.update(kind="bvp", func=func, bc=bc, mesh=np.array(x, dtype=float), guess=y, kw=kw)
-        return Res(y.shape[0], rec["ph"])
-
-    orig = (ode.solve_ivp, ode.solve_bvp)
-    cases, lines = [], []
-    try:
-        ode.solve_ivp, ode.solve_bvp = fake_ivp, fake_bvp
-        for it in range(ctx.n(45, 900)):
+    def part_coeffb():
+        # -- 2. _transform_ode_from_derivs / _transform_ode_from_rtransform ------------------------------------------
+        cases, lines = [], []
+        for it in range(ctx.n(60, 1500)):
             order = 1 + it % 3
             cs = _rand_coeffs(rng, order)
-            coeffs = [c for c, _ in cs]
-            mode = ["fake", "real", "none"][rng.randrange(3)] if it >= 9 else ["fake", "real", "none"][(it // 3) % 3]
-            if mode == "real":
+            npts = rng.choice([1, 1, 2, 3, 5])
+            use_real = rng.random() < 0.4
+            if use_real:
                 tf, (lo, hi) = rng.choice(_real_transforms())
-            elif mode == "fake":
-                tf, (lo, hi) = FakeTF(rng), (-2.0, 2.0)
             else:
-                tf, (lo, hi) = None, (-2.0, 2.0)
-            xa = rng.uniform(lo, lo + 0.3 * (hi - lo))
-            xb = rng.uniform(lo + 0.6 * (hi - lo), hi)
-            fxc = (rng.uniform(-2, 2), rng.uniform(0.3, 2))
-            fx = lambda x, fxc=fxc: fxc[0] * np.cos(fxc[1] * x) + 0.3
-            rec.clear()
-            rec["ph"] = rng.uniform(0, 3)
-            is_ivp = rng.random() < 0.5
-            tag = f"{'ivp' if is_ivp else 'bvp'}:{mode}:order{order}"
+                tf, (lo, hi) = FakeTF(rng), (-2.0, 2.0)
+            x = np.array([rng.uniform(lo, hi) for _ in range(npts)])
+            if use_real or rng.random() < 0.5:
+                got = ode._transform_ode_from_rtransform([c for c, _ in cs], tf, x)
+                via = "rtransform"
+            else:
+                got = ode._transform_ode_from_derivs([c for c, _ in cs], [tf.deriv, tf.deriv2, tf.deriv3], x)
+                via = "derivs"
+            for i in range(npts):
+                a = _eval_coeffs(cs, x[i])
+                d = [float(np.atleast_1d(f(np.array([x[i]])))[0]) for f in (tf.deriv, tf.deriv2, tf.deriv3)]
+                cases.append((order, via, type(tf).__name__, a, d, [float(v) for v in got[:, i]], any(k == "fn" for _, k in cs)))
+                lines.append(f"C15.coeffb {fvec(a)} {f2b(d[0])} {f2b(d[1])} {f2b(d[2])}")
+        for (order, via, tfn, a, d, impl, hasfn), ans in zip(cases, driver_batch(lines)):
+            scale = max(abs(v) for v in a) * max(1.0, abs(d[0])) ** order * max(1.0, abs(d[1]), abs(d[2])) * 3
+            ctx.count(["coeffb", a, d], nontrivial=(order >= 2 and d[1] != 0.0) or hasfn, tag=f"coeffb:order{order}:{via}")
+            if not _vec_close(_ok_vec(ans), impl, scale):
+                ctx.fail("corr", f"_transform_ode_from_derivs:order{order}",
+                         f"coeff_b for a={a}, derivs={d} ({tfn}): implementation {impl}, model {ans if not ans.startswith('ok') else _ok_vec(ans)}",
+                         witness={"order": order, "a": a, "derivs": d, "impl": impl, "model": _ok_vec(ans)})
+        # a non-number, non-callable coefficient is rejected
+        try:
+            ode._evaluate_coeffs_on_points(np.array([0.1]), [1.0, "x"])
+            ctx.fail("corr", "_evaluate_coeffs_on_points:type", "a str coefficient was not rejected with TypeError")
+        except TypeError:
+            pass
+        ctx.count(["coeff-type-error"], nontrivial=True, tag="coeffs:type-error")
 
-            def point_values(r):
-                """what the model needs at one point r of the solver's variable"""
-                x = float(tf.inverse(np.array([r]))[0]) if tf is not None else r
-                a = _eval_coeffs(cs, x)
-                d = [float(np.atleast_1d(f(np.array([x])))[0]) for f in (tf.deriv, tf.deriv2, tf.deriv3)] if tf is not None else None
-                return x, a, d, float(fx(np.array([x]))[0])
 
-            if is_ivp:
-                y0 = [rng.uniform(-2, 2) for _ in range(order)]
-                nod = rng.random() < 0.3
-                ret = ode.solve_ode_ivp((xa, xb), fx, coeffs, y0, tf, no_derivatives=nod)
-                if rec.get("kind") != "ivp":
-                    ctx.fail("corr", "solve_ode_ivp:capture", "solve_ode_ivp did not call scipy solve_ivp")
-                    continue
-                if not (rec["kw"].get("vectorized") is True and rec["kw"].get("dense_output") is True):
-                    ctx.fail("corr", "solve_ode_ivp:kwargs", f"solve_ivp called with {sorted(rec['kw'])}")
-                # initial data and span
-                if tf is not None:
-                    d0 = [float(np.atleast_1d(f(np.array([xa])))[0]) for f in (tf.deriv, tf.deriv2, tf.deriv3)]
-                    t0 = float(tf.transform(np.array([xa]))[0])
-                    t1 = float(tf.transform(np.array([xb]))[0])
-                    cases.append(("ivpinit", tag, dict(y0=y0, d=d0), rec["t_span"] + rec["y0"],
-                                  max(1.0, max(abs(v) for v in y0)) * max(1.0, abs(d0[1])) / min(1.0, abs(d0[0])) ** 3))
-                    lines.append(f"C15.ivpinit {f2b(xa)} {f2b(xb)} {f2b(t0)} {f2b(t1)} {f2b(d0[0])} {f2b(d0[1])} {f2b(d0[2])} {fvec(y0)}")
+    def part_dmat():
+        # -- 3. _derivative_transformation_matrix --------------------------------------------------------------------
+        cases, lines = [], []
+        for it in range(ctx.n(60, 1200)):
+            numb = rng.choice([1, 2, 3, 3, 3, 4])
+            order = rng.randrange(0, numb + 2)
+            ds = [rng.uniform(-2, 2) for _ in range(numb)]
+            point = rng.choice([rng.uniform(-1, 1), np.float64(rng.uniform(-1, 1)), rng.randrange(-2, 3)])
+            funcs = [(lambda p, v=v: v) for v in ds]
+            try:
+                m = ode._derivative_transformation_matrix(funcs, point, order)
+                impl = ("ok", [[float(v) for v in row] for row in m])
+            except ValueError:
+                impl = ("value-error", None)
+            cases.append((order, ds, impl))
+            lines.append(f"C15.dmat {order} {fvec(ds)}")
+        for (order, ds, impl), ans in zip(cases, driver_batch(lines)):
+            ctx.count(["dmat", order, ds], nontrivial=order >= 2 or impl[0] != "ok", tag=f"dmat:order{order}:{impl[0]}")
+            if impl[0] != "ok":
+                good = ans == impl[0]
+            else:
+                good = ans.startswith("ok")
+                if good:
+                    t = Tokens(ans)
+                    t.tok()
+                    mm = t.fmat()
+                    scale = max(1.0, max(abs(d) for d in ds)) ** max(order, 1) * 6
+                    good = len(mm) == order and all(_vec_close(r1, r2, scale) for r1, r2 in zip(mm, impl[1]))
+            if not good:
+                ctx.fail("corr", f"_derivative_transformation_matrix:order{order}",
+                         f"matrix for derivs={ds}, order={order}: implementation {impl}, model {ans}",
+                         witness={"order": order, "derivs": ds, "impl": impl, "model": ans})
+        for bad in (np.array([0.1]), "0.1", None):
+            try:
+                ode._derivative_transformation_matrix([lambda p: 1.0], bad, 1)
+                ctx.fail("corr", "_derivative_transformation_matrix:type", f"point {bad!r} was not rejected with TypeError")
+            except TypeError:
+                pass
+            ctx.count(["dmat-type", repr(bad)], nontrivial=True, tag="dmat:type-error")
+
+
+    def part_explicit():
+        # -- 4. _rearrange_to_explicit_ode ---------------------------------------------------------------------------
+        cases, lines = [], []
+        for it in range(ctx.n(40, 800)):
+            K = 1 + it % 5
+            npts = rng.choice([1, 2, 4])
+            y = np.array([[rng.uniform(-2, 2) for _ in range(npts)] for _ in range(K)])
+            b = np.array([[rng.uniform(-2, 2) for _ in range(npts)] for _ in range(K + 1)])
+            b[-1] = np.where(np.abs(b[-1]) < 0.2, 0.7, b[-1])
+            fx = np.array([rng.uniform(-3, 3) for _ in range(npts)])
+            fx0 = fx.copy()
+            got = ode._rearrange_to_explicit_ode(y, b, fx)
+            if not np.array_equal(fx, fx0):
+                ctx.info("_rearrange_to_explicit_ode modified the right-hand-side array in place (C20's business)")
+            for i in range(npts):
+                cases.append((K, [float(v) for v in y[:, i]], [float(v) for v in b[:, i]], float(fx0[i]), float(got[i])))
+                lines.append(f"C15.explicit {fvec(y[:, i])} {fvec(b[:, i])} {f2b(fx0[i])}")
+        for (K, y, b, fx, impl), ans in zip(cases, driver_batch(lines)):
+            scale = (abs(fx) + sum(abs(p * q) for p, q in zip(b, y))) / abs(b[-1])
+            ctx.count(["explicit", y, b, fx], nontrivial=K >= 2, tag=f"explicit:order{K}")
+            got = _ok_float(ans)
+            if got is None or not close(got, impl, rtol=1e-11, scale=scale):
+                ctx.fail("corr", f"_rearrange_to_explicit_ode:order{K}",
+                         f"explicit form y={y}, coeff_b={b}, fx={fx}: implementation {impl}, model {ans if got is None else got}",
+                         witness={"y": y, "coeff_b": b, "fx": fx, "impl": impl, "model": got})
+
+
+    def part_callbacks():
+        # -- 5. the callbacks and data solve_ode_ivp / solve_ode_bvp hand to SciPy, and the callable they return -------
+        class Res:
+            status = 0
+
+            def __init__(self, K, ph):
+                self.K, self.ph = K, ph
+
+            def sol(self, r):
+                r = np.asarray(r, dtype=float)
+                return np.array([np.sin(1.3 * r + self.ph + k) * (1 + 0.5 * k) for k in range(self.K)])
+
+        rec = {}
+
+        def fake_ivp(func, t_span, y0=None, **kw):
+            rec.update(kind="ivp", func=func, t_span=[float(t) for t in t_span], y0=[float(v) for v in y0], kw=kw)
+            return Res(len(y0), rec["ph"])
+
+        def fake_bvp(func, bc, x, y=None, **kw):
+            rec.update(kind="bvp", func=func, bc=bc, mesh=np.array(x, dtype=float), guess=y, kw=kw)
+            return Res(y.shape[0], rec["ph"])
+
+        orig = (ode.solve_ivp, ode.solve_bvp)
+        cases, lines = [], []
+        try:
+            ode.solve_ivp, ode.solve_bvp = fake_ivp, fake_bvp
+            for it in range(ctx.n(45, 900)):
+                order = 1 + it % 3
+                cs = _rand_coeffs(rng, order)
+                coeffs = [c for c, _ in cs]
+                mode = ["fake", "real", "none"][rng.randrange(3)] if it >= 9 else ["fake", "real", "none"][(it // 3) % 3]
+                if mode == "real":
+                    tf, (lo, hi) = rng.choice(_real_transforms())
+                elif mode == "fake":
+                    tf, (lo, hi) = FakeTF(rng), (-2.0, 2.0)
                 else:
-                    if rec["t_span"] != [xa, xb] or rec["y0"] != y0:
-                        ctx.fail("corr", "solve_ode_ivp:direct-data", f"span/y0 changed without a transform: {rec['t_span']}, {rec['y0']}")
-                # func at random arguments (scalar t, y of shape (K, m))
-                lo_r, hi_r = sorted(rec["t_span"])
-                for _ in range(3):
-                    r = rng.uniform(lo_r, hi_r)
-                    m = rng.choice([1, 1, 3])
-                    Y = np.array([[rng.uniform(-2, 2) for _ in range(m)] for _ in range(order)])
-                    out = np.asarray(rec["func"](r, Y), dtype=float)
-                    x, a, d, fxv = point_values(r)
-                    for j in range(m):
+                    tf, (lo, hi) = None, (-2.0, 2.0)
+                xa = rng.uniform(lo, lo + 0.3 * (hi - lo))
+                xb = rng.uniform(lo + 0.6 * (hi - lo), hi)
+                fxc = (rng.uniform(-2, 2), rng.uniform(0.3, 2))
+                fx = lambda x, fxc=fxc: fxc[0] * np.cos(fxc[1] * x) + 0.3
+                rec.clear()
+                rec["ph"] = rng.uniform(0, 3)
+                is_ivp = rng.random() < 0.5
+                tag = f"{'ivp' if is_ivp else 'bvp'}:{mode}:order{order}"
+
+                def point_values(r):
+                    """what the model needs at one point r of the solver's variable"""
+                    x = float(tf.inverse(np.array([r]))[0]) if tf is not None else r
+                    a = _eval_coeffs(cs, x)
+                    d = [float(np.atleast_1d(f(np.array([x])))[0]) for f in (tf.deriv, tf.deriv2, tf.deriv3)] if tf is not None else None
+                    return x, a, d, float(fx(np.array([x]))[0])
+
+                if is_ivp:
+                    y0 = [rng.uniform(-2, 2) for _ in range(order)]
+                    nod = rng.random() < 0.3
+                    ret = ode.solve_ode_ivp((xa, xb), fx, coeffs, y0, tf, no_derivatives=nod)
+                    if rec.get("kind") != "ivp":
+                        ctx.fail("corr", "solve_ode_ivp:capture", "solve_ode_ivp did not call scipy solve_ivp")
+                        continue
+                    if not (rec["kw"].get("vectorized") is True and rec["kw"].get("dense_output") is True):
+                        ctx.fail("corr", "solve_ode_ivp:kwargs", f"solve_ivp called with {sorted(rec['kw'])}")
+                    # initial data and span
+                    if tf is not None:
+                        d0 = [float(np.atleast_1d(f(np.array([xa])))[0]) for f in (tf.deriv, tf.deriv2, tf.deriv3)]
+                        t0 = float(tf.transform(np.array([xa]))[0])
+                        t1 = float(tf.transform(np.array([xb]))[0])
+                        cases.append(("ivpinit", tag, dict(y0=y0, d=d0), rec["t_span"] + rec["y0"],
+                                      max(1.0, max(abs(v) for v in y0)) * max(1.0, abs(d0[1])) / min(1.0, abs(d0[0])) ** 3))
+                        lines.append(f"C15.ivpinit {f2b(xa)} {f2b(xb)} {f2b(t0)} {f2b(t1)} {f2b(d0[0])} {f2b(d0[1])} {f2b(d0[2])} {fvec(y0)}")
+                    else:
+                        if rec["t_span"] != [xa, xb] or rec["y0"] != y0:
+                            ctx.fail("corr", "solve_ode_ivp:direct-data", f"span/y0 changed without a transform: {rec['t_span']}, {rec['y0']}")
+                    # func at random arguments (scalar t, y of shape (K, m))
+                    lo_r, hi_r = sorted(rec["t_span"])
+                    for _ in range(3):
+                        r = rng.uniform(lo_r, hi_r)
+                        m = rng.choice([1, 1, 3])
+                        Y = np.array([[rng.uniform(-2, 2) for _ in range(m)] for _ in range(order)])
+                        out = np.asarray(rec["func"](r, Y), dtype=float)
+                        x, a, d, fxv = point_values(r)
+                        for j in range(m):
+                            yj = [float(v) for v in Y[:, j]]
+                            scale = (abs(fxv) + sum(abs(v) for v in yj) * max(abs(v) for v in a) * (1 + sum(abs(v) for v in (d or [1]))) ** 3) / \
+                                (abs(a[-1]) * min(1.0, abs(d[0]) if d else 1.0) ** order)
+                            cases.append(("func", tag, dict(r=r, x=x, a=a, d=d, fx=fxv, y=yj), [float(v) for v in out[:, j]], scale))
+                            if d is None:
+                                lines.append(f"C15.funcd {fvec(a)} {f2b(fxv)} {fvec(yj)}")
+                            else:
+                                lines.append(f"C15.func {fvec(a)} {f2b(d[0])} {f2b(d[1])} {f2b(d[2])} {f2b(fxv)} {fvec(yj)}")
+                else:
+                    pairs = [(i, j) for i in (0, 1) for j in range(order)]
+                    bd = [(i, j, rng.uniform(-2, 2)) for i, j in rng.sample(pairs, order)]
+                    nod = rng.random() < 0.5
+                    mesh = np.linspace(xa, xb, 6)
+                    guess = np.array([[rng.uniform(-1, 1) for _ in range(6)] for _ in range(order)])
+                    ret = ode.solve_ode_bvp(mesh, fx, coeffs, bd, tf, initial_guess_y=guess, no_derivatives=nod)
+                    if rec.get("kind") != "bvp":
+                        ctx.fail("corr", "solve_ode_bvp:capture", "solve_ode_bvp did not call scipy solve_bvp")
+                        continue
+                    want_mesh = tf.transform(mesh) if tf is not None else mesh
+                    if not np.allclose(rec["mesh"], want_mesh, rtol=1e-14, atol=0) or not np.array_equal(rec["guess"], guess):
+                        ctx.fail("corr", "solve_ode_bvp:mesh", "mesh handed to solve_bvp is not transform(x) / guess changed",
+                                 witness={"mesh": rec["mesh"], "expected": want_mesh})
+                    # bc
+                    ya = [rng.uniform(-2, 2) for _ in range(order)]
+                    yb = [rng.uniform(-2, 2) for _ in range(order)]
+                    res = [float(v) for v in rec["bc"](np.array(ya), np.array(yb))]
+                    cases.append(("bc", tag, dict(bd=bd, ya=ya, yb=yb), res, 4.0))
+                    lines.append(f"C15.bc {len(bd)} " + " ".join(f"{i} {j} {f2b(c)}" for i, j, c in bd) + f" {fvec(ya)} {fvec(yb)}")
+                    # func on a mesh
+                    rs = np.sort(np.array([rng.uniform(rec["mesh"].min(), rec["mesh"].max()) for _ in range(3)]))
+                    Y = np.array([[rng.uniform(-2, 2) for _ in range(3)] for _ in range(order)])
+                    out = np.asarray(rec["func"](rs, Y), dtype=float)
+                    for j in range(3):
+                        x, a, d, fxv = point_values(float(rs[j]))
                         yj = [float(v) for v in Y[:, j]]
                         scale = (abs(fxv) + sum(abs(v) for v in yj) * max(abs(v) for v in a) * (1 + sum(abs(v) for v in (d or [1]))) ** 3) / \
                             (abs(a[-1]) * min(1.0, abs(d[0]) if d else 1.0) ** order)
-                        cases.append(("func", tag, dict(r=r, x=x, a=a, d=d, fx=fxv, y=yj), [float(v) for v in out[:, j]], scale))
-                        if d is None:
-                            lines.append(f"C15.funcd {fvec(a)} {f2b(fxv)} {fvec(yj)}")
+                        cases.append(("func", tag, dict(r=float(rs[j]), x=x, a=a, d=d, fx=fxv, y=yj), [float(v) for v in out[:, j]], scale))
+                        if d is None:      # `bfunc*`: the generated text of solve_ode_bvp's own nested `func`
+                            lines.append(f"C15.bfuncd {fvec(a)} {f2b(fxv)} {fvec(yj)}")
                         else:
-                            lines.append(f"C15.func {fvec(a)} {f2b(d[0])} {f2b(d[1])} {f2b(d[2])} {f2b(fxv)} {fvec(yj)}")
-            else:
-                pairs = [(i, j) for i in (0, 1) for j in range(order)]
-                bd = [(i, j, rng.uniform(-2, 2)) for i, j in rng.sample(pairs, order)]
-                nod = rng.random() < 0.5
-                mesh = np.linspace(xa, xb, 6)
-                guess = np.array([[rng.uniform(-1, 1) for _ in range(6)] for _ in range(order)])
-                ret = ode.solve_ode_bvp(mesh, fx, coeffs, bd, tf, initial_guess_y=guess, no_derivatives=nod)
-                if rec.get("kind") != "bvp":
-                    ctx.fail("corr", "solve_ode_bvp:capture", "solve_ode_bvp did not call scipy solve_bvp")
-                    continue
-                want_mesh = tf.transform(mesh) if tf is not None else mesh
-                if not np.allclose(rec["mesh"], want_mesh, rtol=1e-14, atol=0) or not np.array_equal(rec["guess"], guess):
-                    ctx.fail("corr", "solve_ode_bvp:mesh", "mesh handed to solve_bvp is not transform(x) / guess changed",
-                             witness={"mesh": rec["mesh"], "expected": want_mesh})
-                # bc
-                ya = [rng.uniform(-2, 2) for _ in range(order)]
-                yb = [rng.uniform(-2, 2) for _ in range(order)]
-                res = [float(v) for v in rec["bc"](np.array(ya), np.array(yb))]
-                cases.append(("bc", tag, dict(bd=bd, ya=ya, yb=yb), res, 4.0))
-                lines.append(f"C15.bc {len(bd)} " + " ".join(f"{i} {j} {f2b(c)}" for i, j, c in bd) + f" {fvec(ya)} {fvec(yb)}")
-                # func on a mesh
-                rs = np.sort(np.array([rng.uniform(rec["mesh"].min(), rec["mesh"].max()) for _ in range(3)]))
-                Y = np.array([[rng.uniform(-2, 2) for _ in range(3)] for _ in range(order)])
-                out = np.asarray(rec["func"](rs, Y), dtype=float)
-                for j in range(3):
-                    x, a, d, fxv = point_values(float(rs[j]))
-                    yj = [float(v) for v in Y[:, j]]
-                    scale = (abs(fxv) + sum(abs(v) for v in yj) * max(abs(v) for v in a) * (1 + sum(abs(v) for v in (d or [1]))) ** 3) / \
-                        (abs(a[-1]) * min(1.0, abs(d[0]) if d else 1.0) ** order)
-                    cases.append(("func", tag, dict(r=float(rs[j]), x=x, a=a, d=d, fx=fxv, y=yj), [float(v) for v in out[:, j]], scale))
-                    if d is None:      # `bfunc*`: the generated text of solve_ode_bvp's own nested `func`
-                        lines.append(f"C15.bfuncd {fvec(a)} {f2b(fxv)} {fvec(yj)}")
-                    else:
-                        lines.append(f"C15.bfunc {fvec(a)} {f2b(d[0])} {f2b(d[1])} {f2b(d[2])} {f2b(fxv)} {fvec(yj)}")
-            # the returned callable (transform branch)
-            if tf is not None:
-                pts = np.array([rng.uniform(xa, xb) for _ in range(2)])
-                out = np.asarray(ret(pts), dtype=float)
-                fake = Res(order, rec["ph"])
-                for j in range(2):
-                    xj = float(pts[j])
-                    interp = [float(v) for v in fake.sol(tf.transform(np.array([xj])))[:, 0]]
-                    d = [float(np.atleast_1d(f(np.array([xj])))[0]) for f in (tf.deriv, tf.deriv2, tf.deriv3)]
-                    impl = [float(out[j])] if out.ndim == 1 else [float(v) for v in out[:, j]]
-                    cases.append(("back", tag + (":noderiv" if nod else ""), dict(x=xj, d=d, interp=interp, no_derivatives=nod), impl,
-                                  max(1.0, max(abs(v) for v in interp)) * (1 + sum(abs(v) for v in d)) ** 2))
-                    lines.append(f"C15.back {order} {1 if nod else 0} {f2b(d[0])} {f2b(d[1])} {f2b(d[2])} {fvec(interp)}")
-            else:
-                if getattr(ret, "__func__", None) is not Res.sol:
-                    ctx.fail("corr", "solve_ode:direct-return", "without a transform the integrator's `sol` is not returned as it is")
-    finally:
-        ode.solve_ivp, ode.solve_bvp = orig
-    for (op, tag, inp, impl, scale), ans in zip(cases, driver_batch(lines)):
-        d = inp.get("d")
-        ctx.count([op, inp], nontrivial=(d is not None and d[1] != 0.0) or op == "bc", tag=f"{op}:{tag}")
-        got = _ok_vec(ans)
-        if not _vec_close(got, impl, scale):
-            ctx.fail("corr", f"solve_ode:{op}:{tag.split(':')[0]}",
-                     f"{op} ({tag}) on {inp}: implementation {impl}, model {ans if got is None else got}",
-                     witness={"op": op, "case": tag, "input": inp, "impl": impl, "model": got})
-    _corr_whole_functions(ctx, ode)
-    _corr_container_kinds(ctx, ode)
-    _corr_round3(ctx, ode)
-    # argument checks of the public functions
-    for bad_call, exc, what in (
-        (lambda: ode.solve_ode_ivp((0.1, 1.0), lambda x: x, [1.0, 1.0, 1.0], [1.0]), ValueError, "len(y0) != order"),
-        (lambda: ode.solve_ode_bvp(np.linspace(0.1, 1, 5), lambda x: x, [1.0, 1.0, 1.0], [(0, 0, 1.0)]), ValueError, "len(bd_cond) != order"),
-        (lambda: ode.solve_ode_ivp((0.1, 1.0), lambda x: x, [1.0] * 5, [1.0] * 4, FakeTF(rng)), NotImplementedError, "order 4 with transform"),
-        (lambda: ode.solve_ode_ivp((-20.0, 1.0), lambda x: x, [1.0, 1.0], [1.0], FakeTF(rng)), ValueError, "span outside the transform domain"),
-    ):
-        try:
-            bad_call()
-            ctx.fail("corr", "solve_ode:argument-check", f"{what}: not rejected")
-        except exc:
-            pass
-        ctx.count(["argcheck", what], nontrivial=True, tag="argument-check")
+                            lines.append(f"C15.bfunc {fvec(a)} {f2b(d[0])} {f2b(d[1])} {f2b(d[2])} {f2b(fxv)} {fvec(yj)}")
+                # the returned callable (transform branch)
+                if tf is not None:
+                    pts = np.array([rng.uniform(xa, xb) for _ in range(2)])
+                    out = np.asarray(ret(pts), dtype=float)
+                    fake = Res(order, rec["ph"])
+                    for j in range(2):
+                        xj = float(pts[j])
+                        interp = [float(v) for v in fake.sol(tf.transform(np.array([xj])))[:, 0]]
+                        d = [float(np.atleast_1d(f(np.array([xj])))[0]) for f in (tf.deriv, tf.deriv2, tf.deriv3)]
+                        impl = [float(out[j])] if out.ndim == 1 else [float(v) for v in out[:, j]]
+                        cases.append(("back", tag + (":noderiv" if nod else ""), dict(x=xj, d=d, interp=interp, no_derivatives=nod), impl,
+                                      max(1.0, max(abs(v) for v in interp)) * (1 + sum(abs(v) for v in d)) ** 2))
+                        lines.append(f"C15.back {order} {1 if nod else 0} {f2b(d[0])} {f2b(d[1])} {f2b(d[2])} {fvec(interp)}")
+                else:
+                    if getattr(ret, "__func__", None) is not Res.sol:
+                        ctx.fail("corr", "solve_ode:direct-return", "without a transform the integrator's `sol` is not returned as it is")
+        finally:
+            ode.solve_ivp, ode.solve_bvp = orig
+        for (op, tag, inp, impl, scale), ans in zip(cases, driver_batch(lines)):
+            d = inp.get("d")
+            ctx.count([op, inp], nontrivial=(d is not None and d[1] != 0.0) or op == "bc", tag=f"{op}:{tag}")
+            got = _ok_vec(ans)
+            if not _vec_close(got, impl, scale):
+                ctx.fail("corr", f"solve_ode:{op}:{tag.split(':')[0]}",
+                         f"{op} ({tag}) on {inp}: implementation {impl}, model {ans if got is None else got}",
+                         witness={"op": op, "case": tag, "input": inp, "impl": impl, "model": got})
+
+    def part_argument_checks():
+        # argument checks of the public functions
+        for bad_call, exc, what in (
+            (lambda: ode.solve_ode_ivp((0.1, 1.0), lambda x: x, [1.0, 1.0, 1.0], [1.0]), ValueError, "len(y0) != order"),
+            (lambda: ode.solve_ode_bvp(np.linspace(0.1, 1, 5), lambda x: x, [1.0, 1.0, 1.0], [(0, 0, 1.0)]), ValueError, "len(bd_cond) != order"),
+            (lambda: ode.solve_ode_ivp((0.1, 1.0), lambda x: x, [1.0] * 5, [1.0] * 4, FakeTF(rng)), NotImplementedError, "order 4 with transform"),
+            (lambda: ode.solve_ode_ivp((-20.0, 1.0), lambda x: x, [1.0, 1.0], [1.0], FakeTF(rng)), ValueError, "span outside the transform domain"),
+        ):
+            try:
+                bad_call()
+                ctx.fail("corr", "solve_ode:argument-check", f"{what}: not rejected")
+            except exc:
+                pass
+            ctx.count(["argcheck", what], nontrivial=True, tag="argument-check")
+    _run_parts(ctx, "corr", [("sympy-bell", part_bell), ("coeff_b", part_coeffb), ("derivative-matrix", part_dmat), ("explicit-form", part_explicit),
+                             ("captured-callbacks", part_callbacks), ("whole-functions", lambda: _corr_whole_functions(ctx, ode)),
+                             ("container-kinds", lambda: _corr_container_kinds(ctx, ode)), ("round3", lambda: _corr_round3(ctx, ode)),
+                             ("argument-checks", part_argument_checks)])
+
 
 
 # ----------------------------------------------------------------------------------------------------------------
@@ -1200,215 +1233,220 @@ def oracle(ctx: Ctx, budget: str, only=None):
         return only is not None and sum(f.kind == "oracle" for f in ctx.failures[nfail0:]) >= 3
 
     # ---- audit: state between calls / object identity (first: its replay snippets carry the whole call history) ----------
-    _audit_sequences(ctx, cat, only)
+    # (run as the first part below)
 
-    # ---- IVP ----------------------------------------------------------------------------------------------------
-    # (a) every method SciPy offers x orders 2, 3 through a non-affine transform; (b) every transform x every order once
-    # (method rotating; one of the three orders integrates backwards, rotating; Python-float / np.float64 spans
-    # alternating; no_derivatives=True for one of three); (c) extreme parameters; (d) random extra cases
-    plan = []
-    mlist = ["DOP853", "RK45", "Radau", "LSODA", "BDF", "RK23"]
-    nonaffine = [n for n in names if n != "none" and not cat[n][2].get("affine")]
-    i = rng.randrange(len(nonaffine))
-    for order in (2, 3):
-        for method in mlist:
-            plan.append((nonaffine[i % len(nonaffine)], order, method, {"sweep": True, "nod": True, "backward": i % 2 == 1, "np_span": i % 4 >= 2}))
-            i += 5
-    i = rng.randrange(6)
-    for ni, name in enumerate(names):
-        for order in (1, 2, 3):
-            plan.append((name, order, mlist[(i + 7 * ni + order) % 6],
-                         {"sweep": True, "backward": (ni + order) % 3 == 0, "np_span": bool(cat[name][2].get("np_span")) or (ni + order) % 2 == 0,
-                          "nod": (ni + 2 * order) % 3 == 0}))
-        if cat[name][2].get("decreasing"):               # decreasing transforms: every order in the other direction too
+    def part_ivp():
+        # ---- IVP ----------------------------------------------------------------------------------------------------
+        # (a) every method SciPy offers x orders 2, 3 through a non-affine transform; (b) every transform x every order once
+        # (method rotating; one of the three orders integrates backwards, rotating; Python-float / np.float64 spans
+        # alternating; no_derivatives=True for one of three); (c) extreme parameters; (d) random extra cases
+        plan = []
+        mlist = ["DOP853", "RK45", "Radau", "LSODA", "BDF", "RK23"]
+        nonaffine = [n for n in names if n != "none" and not cat[n][2].get("affine")]
+        i = rng.randrange(len(nonaffine))
+        for order in (2, 3):
+            for method in mlist:
+                plan.append((nonaffine[i % len(nonaffine)], order, method, {"sweep": True, "nod": True, "backward": i % 2 == 1, "np_span": i % 4 >= 2}))
+                i += 5
+        i = rng.randrange(6)
+        for ni, name in enumerate(names):
             for order in (1, 2, 3):
-                plan.append((name, order, mlist[(i + 7 * ni + order + 3) % 6], {"sweep": True, "backward": (ni + order) % 3 != 0}))
-    for label, prob in extreme_ivp_problems(rng, cat, large or ctx.thorough):
-        plan.append((prob["tfname"], len(prob["coeffs"]) - 1, prob["method"], {"prob": prob, "extreme": label, "sweep": True, "tol_factor": 3.0}))
-    extra = (150 if only else 400) if large else ctx.n(50, 900)
-    for _ in range(extra):
-        plan.append((rng.choice(names), rng.choice([o for o in [1, 2, 3, 3] if o in orders_on]), rng.choice(mlist),
-                     {"backward": rng.random() < 0.25, "nod": rng.random() < 0.1}))
-    plan = [p for p in plan if p[1] in orders_on] if "ivp" in kinds_on else []
-    timeouts = 0
-    for name, order, method, opt in plan:
-        if timeouts >= 4:
-            ctx.info("IVP exploration stopped after 4 solves that did not finish within the time limit")
-            break
-        if enough():
-            break
-        prob = opt.get("prob") or gen_problem(rng, order, name, cat)
-        rt = METHODS[method]
-        prob.update(method=method, rtol=rt, atol=rt * 1e-2)
-        if "prob" not in opt:
-            prob["np_span"] = bool(opt.get("np_span", prob["np_span"]))
-            if opt.get("backward"):
-                prob["span"] = prob["span"][::-1]           # integrate backwards
-        tol = IVP_FACTOR * rt * opt.get("tol_factor", 1.0)
-        key = f"ode.solve_ode_ivp:order{order}:{name}" if "extreme" not in opt else f"ode.solve_ode_ivp:extreme:{opt['extreme']}"
-        ctx.count(["ivp", prob], nontrivial=nontrivial_problem(prob, cat), tag=f"oracle:ivp:order{order}:{method}")
-        pts = np.linspace(prob["span"][0], prob["span"][1], pts_n)
-        try:
-            with time_limit(SOLVE_TIME_LIMIT):
-                sol = run_ivp(prob)
-                errs, out = errors(prob, sol, pts)
-        except Exception as e:
-            timeouts += isinstance(e, SolveTimeout)
-            ctx.fail("oracle", key, f"solve_ode_ivp raised {type(e).__name__}: {e} on a well-posed order-{order} problem ({prob['tf'] or 'no transform'}, {method})",
-                     witness=prob, snippet=snippet_ivp(prob, tol))
-            continue
-        if max(errs) > tol:
-            ctx.fail("oracle", key,
-                     f"solve_ode_ivp order {order} through {prob['tf'] or 'no transform'} ({method}, rtol {rt}): the returned callable is off "
-                     f"the exact solution: relative errors of [y, y', ..][:order] = {errs} > {tol}",
-                     witness={"problem": prob, "errors": errs, "tolerance": tol}, snippet=snippet_ivp(prob, tol))
-            continue
-        # the same callable on an unsorted array with end points and repeats, and one point at a time; raw shapes
-        if opt.get("sweep") or rng.random() < 0.2:
-            _audit_returned_callable(ctx, prob, sol, "solve_ode_ivp", False, tol)
-        # prescribed initial values (with respect to the ORIGINAL variable)
-        x0 = prob["span"][0]
-        at0 = np.atleast_2d(sol(np.array([x0])))[:, 0]
-        want0 = [float(y_deriv(prob["y"], k)(x0)) for k in range(order)]
-        if any(abs(a - b) > 1e-9 * (1 + abs(b)) for a, b in zip(at0, want0)):
-            ctx.fail("oracle", key, f"solve_ode_ivp: initial values not reproduced at x0={x0}: {list(at0)} vs {want0}",
-                     witness={"problem": prob, "at_x0": at0, "prescribed": want0}, snippet=snippet_ivp(prob, tol))
-        # through transform == direct
-        if prob["tf"]:
+                plan.append((name, order, mlist[(i + 7 * ni + order) % 6],
+                             {"sweep": True, "backward": (ni + order) % 3 == 0, "np_span": bool(cat[name][2].get("np_span")) or (ni + order) % 2 == 0,
+                              "nod": (ni + 2 * order) % 3 == 0}))
+            if cat[name][2].get("decreasing"):               # decreasing transforms: every order in the other direction too
+                for order in (1, 2, 3):
+                    plan.append((name, order, mlist[(i + 7 * ni + order + 3) % 6], {"sweep": True, "backward": (ni + order) % 3 != 0}))
+        for label, prob in extreme_ivp_problems(rng, cat, large or ctx.thorough):
+            plan.append((prob["tfname"], len(prob["coeffs"]) - 1, prob["method"], {"prob": prob, "extreme": label, "sweep": True, "tol_factor": 3.0}))
+        extra = (150 if only else 400) if large else ctx.n(35, 900)      # (quick: 50 until round 4; the sweep above is complete)
+        for _ in range(extra):
+            plan.append((rng.choice(names), rng.choice([o for o in [1, 2, 3, 3] if o in orders_on]), rng.choice(mlist),
+                         {"backward": rng.random() < 0.25, "nod": rng.random() < 0.1}))
+        plan = [p for p in plan if p[1] in orders_on] if "ivp" in kinds_on else []
+        timeouts = 0
+        for name, order, method, opt in plan:
+            if timeouts >= 4:
+                ctx.info("IVP exploration stopped after 4 solves that did not finish within the time limit")
+                break
+            if enough():
+                break
+            prob = opt.get("prob") or gen_problem(rng, order, name, cat)
+            rt = METHODS[method]
+            prob.update(method=method, rtol=rt, atol=rt * 1e-2)
+            if "prob" not in opt:
+                prob["np_span"] = bool(opt.get("np_span", prob["np_span"]))
+                if opt.get("backward"):
+                    prob["span"] = prob["span"][::-1]           # integrate backwards
+            tol = IVP_FACTOR * rt * opt.get("tol_factor", 1.0)
+            key = f"ode.solve_ode_ivp:order{order}:{name}" if "extreme" not in opt else f"ode.solve_ode_ivp:extreme:{opt['extreme']}"
+            ctx.count(["ivp", prob], nontrivial=nontrivial_problem(prob, cat), tag=f"oracle:ivp:order{order}:{method}")
+            pts = np.linspace(prob["span"][0], prob["span"][1], pts_n)
             try:
                 with time_limit(SOLVE_TIME_LIMIT):
-                    sold = run_ivp(prob, tf=None)
-                    outd = np.atleast_2d(sold(pts))
-                diff = max(float(np.max(np.abs(out[k] - outd[k])) / (1 + np.max(np.abs(outd[k])))) for k in range(order))
-                if diff > 2 * tol:
-                    ctx.fail("oracle", key, f"solve_ode_ivp: through {prob['tf']} differs from the direct solve by {diff} > {2 * tol}",
-                             witness={"problem": prob, "difference": diff}, snippet=snippet_ivp(prob, tol))
+                    sol = run_ivp(prob)
+                    errs, out = errors(prob, sol, pts)
             except Exception as e:
                 timeouts += isinstance(e, SolveTimeout)
-                ctx.fail("oracle", f"ode.solve_ode_ivp:order{order}:none", f"direct solve raised {type(e).__name__}: {e}", witness=prob)
-        # no_derivatives=True returns y only
-        if opt.get("nod") and (prob["tf"] or opt.get("sweep")):
-            try:
-                with time_limit(SOLVE_TIME_LIMIT):
-                    s2 = _ns["solve_ode_ivp"](_ns["span_of"](prob), rhs(prob), [coeff_fn(c) for c in prob["coeffs"]], want0,
-                                              make_tf(prob), method=method, rtol=rt, atol=rt * 1e-2, no_derivatives=True)
-                    o2 = np.asarray(s2(pts))
-            except Exception as e:
-                timeouts += isinstance(e, SolveTimeout)
-                ctx.fail("oracle", key, f"solve_ode_ivp(no_derivatives=True) raised {type(e).__name__}: {e}", witness=prob)
+                ctx.fail("oracle", key, f"solve_ode_ivp raised {type(e).__name__}: {e} on a well-posed order-{order} problem ({prob['tf'] or 'no transform'}, {method})",
+                         witness=prob, snippet=snippet_ivp(prob, tol))
                 continue
-            if not prob["tf"]:
-                o2 = o2[0] if o2.shape == (order, pts_n) else o2[None]      # without a transform the option has no effect (documented)
-            if o2.shape != (pts_n,) or np.max(np.abs(o2 - out[0])) > 1e-12 * (1 + np.max(np.abs(out[0]))):
-                ctx.fail("oracle", f"ode.solve_ode_ivp:no_derivatives", f"solve_ode_ivp(no_derivatives=True) does not return row 0 of the full answer (shape {o2.shape})",
-                         witness=prob, snippet=snippet_nod(prob, "ivp"))
-            else:
-                _audit_returned_callable(ctx, prob, s2, "solve_ode_ivp", True, tol)
-
-    # ---- BVP ----------------------------------------------------------------------------------------------------
-    # every transform x every order once, the kind of the condition set rotating (value conditions, derivative
-    # conditions at both ends, everything at one end, second-derivative conditions; well-posedness is checked
-    # independently of the library by _bvp_functional_cond); extreme parameters; random extra cases
-    plan = []
-    k0 = rng.randrange(len(BC_KINDS))
-    for ni, name in enumerate(names):
-        if cat[name][2].get("no_bvp"):
-            continue
-        for order in (1, 2, 3):
-            plan.append((name, order, {"sweep": True, "bc_kind": BC_KINDS[(k0 + ni + 2 * order) % len(BC_KINDS)], "nod": (ni + order) % 3 == 0}))
-    for label, prob in extreme_bvp_problems(rng, cat, large or ctx.thorough):
-        plan.append((prob["tfname"], len(prob["coeffs"]) - 1, {"prob": prob, "extreme": label, "sweep": True, "tol_factor": 5.0}))
-    for _ in range((120 if only else 300) if large else ctx.n(40, 700)):
-        name = rng.choice(names)
-        if not cat[name][2].get("no_bvp"):
-            plan.append((name, rng.choice([o for o in [1, 2, 3, 3] if o in orders_on]), {"bc_kind": rng.choice(BC_KINDS), "nod": rng.random() < 0.15}))
-    plan = [p for p in plan if p[1] in orders_on] if "bvp" in kinds_on else []
-    timeouts = 0
-    for name, order, opt in plan:
-        if timeouts >= 4:
-            ctx.info("BVP exploration stopped after 4 solves that did not finish within the time limit")
-            break
-        if enough():
-            break
-        prob = opt.get("prob") or _gen_bvp_problem(rng, order, name, cat, opt["bc_kind"])
-        key = f"ode.solve_ode_bvp:order{order}:{name}" if "extreme" not in opt else f"ode.solve_ode_bvp:extreme:{opt['extreme']}"
-        ctx.tagc(f"oracle:bvp:conditions:{prob.get('bc_kind', 'given')}")
-        acc = BVP_ACCEPT * opt.get("tol_factor", 1.0) * cat[name][2].get("bvp_tol_factor", 1.0)
-        ctx.count(["bvp", prob], nontrivial=nontrivial_problem(prob, cat), tag=f"oracle:bvp:order{order}")
-        pts = np.linspace(prob["span"][0], prob["span"][1], pts_n)
-        try:
-            try:
-                with time_limit(SOLVE_TIME_LIMIT):
-                    sol, bd = run_bvp(prob)
-                    errs, out = errors(prob, sol, pts)
-            except ValueError as e:
-                # extreme-parameter problems: SciPy's solve_bvp may exhaust its node budget at tol 1e-8 for a particular draw
-                # (status 1; seen on the unchanged tree through HandyModRTransform(0.1, 10, 3) on [-0.9, 0.99], third order,
-                # where 100 000 nodes do not help either while the direct solve is accurate): a limit of the integrator at that
-                # tolerance, not a wrong answer - such a draw is solved once more at tol 1e-6 and accepted 100 times wider
-                if "extreme" not in opt or "status: 1" not in str(e):
-                    raise
-                ctx.info(f"solve_bvp exhausted its node budget at tol {prob['tol']} on {key}; solved again at tol 1e-6")
-                prob["tol"] = 1e-6
-                acc = acc * 100.0
-                with time_limit(SOLVE_TIME_LIMIT):
-                    sol, bd = run_bvp(prob)
-                    errs, out = errors(prob, sol, pts)
-        except Exception as e:
-            timeouts += isinstance(e, SolveTimeout)
-            ctx.fail("oracle", key, f"solve_ode_bvp raised {type(e).__name__}: {e} on an order-{order} problem ({prob['tf'] or 'no transform'})",
-                     witness=prob, snippet=snippet_bvp(prob, acc))
-            continue
-        if max(errs) > acc:
-            ctx.fail("oracle", key,
-                     f"solve_ode_bvp order {order} through {prob['tf'] or 'no transform'} (tol {BVP_TOL}): relative errors of [y, y', ..] = {errs} > {acc}",
-                     witness={"problem": prob, "errors": errs, "bd_cond": bd}, snippet=snippet_bvp(prob, acc))
-            continue
-        if opt.get("sweep") or rng.random() < 0.2:
-            _audit_returned_callable(ctx, prob, sol, "solve_ode_bvp", False, acc)
-        # prescribed boundary conditions: value conditions on y itself; derivative conditions, mapped back to x
-        mesh = mesh_of(prob) if prob["tf"] else np.linspace(prob["span"][0], prob["span"][1], prob["nmesh"])
-        ends = [float(mesh[0]), float(mesh[-1])]
-        for (i, j, c) in bd:
-            got = float(np.atleast_2d(sol(np.array([ends[i]])))[j, 0])
-            want = float(y_deriv(prob["y"], j)(ends[i]))
-            if abs(got - want) > acc * (1 + abs(want)):
-                ctx.fail("oracle", key, f"solve_ode_bvp: boundary condition ({i},{j}) not met in the original variable: {got} vs {want}",
-                         witness={"problem": prob, "bd_cond": bd}, snippet=snippet_bvp(prob, acc))
-        if prob["tf"]:
-            try:
-                with time_limit(SOLVE_TIME_LIMIT):
-                    sold, _ = run_bvp(prob, tf=None)
-                    outd = np.atleast_2d(sold(pts))
-                diff = max(float(np.max(np.abs(out[k] - outd[k])) / (1 + np.max(np.abs(outd[k])))) for k in range(order))
-                if diff > 2 * acc:
-                    ctx.fail("oracle", key, f"solve_ode_bvp: through {prob['tf']} differs from the direct solve by {diff}",
-                             witness={"problem": prob, "difference": diff}, snippet=snippet_bvp(prob, acc))
-            except Exception as e:
-                timeouts += isinstance(e, SolveTimeout)
-                ctx.fail("oracle", f"ode.solve_ode_bvp:order{order}:none", f"direct solve raised {type(e).__name__}: {e}", witness=prob)
-            if opt.get("nod"):
+            if max(errs) > tol:
+                ctx.fail("oracle", key,
+                         f"solve_ode_ivp order {order} through {prob['tf'] or 'no transform'} ({method}, rtol {rt}): the returned callable is off "
+                         f"the exact solution: relative errors of [y, y', ..][:order] = {errs} > {tol}",
+                         witness={"problem": prob, "errors": errs, "tolerance": tol}, snippet=snippet_ivp(prob, tol))
+                continue
+            # the same callable on an unsorted array with end points and repeats, and one point at a time; raw shapes
+            if opt.get("sweep") or rng.random() < 0.2:
+                _audit_returned_callable(ctx, prob, sol, "solve_ode_ivp", False, tol)
+            # prescribed initial values (with respect to the ORIGINAL variable)
+            x0 = prob["span"][0]
+            at0 = np.atleast_2d(sol(np.array([x0])))[:, 0]
+            want0 = [float(y_deriv(prob["y"], k)(x0)) for k in range(order)]
+            if any(abs(a - b) > 1e-9 * (1 + abs(b)) for a, b in zip(at0, want0)):
+                ctx.fail("oracle", key, f"solve_ode_ivp: initial values not reproduced at x0={x0}: {list(at0)} vs {want0}",
+                         witness={"problem": prob, "at_x0": at0, "prescribed": want0}, snippet=snippet_ivp(prob, tol))
+            # through transform == direct
+            if prob["tf"]:
                 try:
                     with time_limit(SOLVE_TIME_LIMIT):
-                        s2, _ = run_bvp(prob, no_derivatives=True)       # the default of solve_ode_bvp
+                        sold = run_ivp(prob, tf=None)
+                        outd = np.atleast_2d(sold(pts))
+                    diff = max(float(np.max(np.abs(out[k] - outd[k])) / (1 + np.max(np.abs(outd[k])))) for k in range(order))
+                    if diff > 2 * tol:
+                        ctx.fail("oracle", key, f"solve_ode_ivp: through {prob['tf']} differs from the direct solve by {diff} > {2 * tol}",
+                                 witness={"problem": prob, "difference": diff}, snippet=snippet_ivp(prob, tol))
+                except Exception as e:
+                    timeouts += isinstance(e, SolveTimeout)
+                    ctx.fail("oracle", f"ode.solve_ode_ivp:order{order}:none", f"direct solve raised {type(e).__name__}: {e}", witness=prob)
+            # no_derivatives=True returns y only
+            if opt.get("nod") and (prob["tf"] or opt.get("sweep")):
+                try:
+                    with time_limit(SOLVE_TIME_LIMIT):
+                        s2 = _ns["solve_ode_ivp"](_ns["span_of"](prob), rhs(prob), [coeff_fn(c) for c in prob["coeffs"]], want0,
+                                                  make_tf(prob), method=method, rtol=rt, atol=rt * 1e-2, no_derivatives=True)
                         o2 = np.asarray(s2(pts))
                 except Exception as e:
                     timeouts += isinstance(e, SolveTimeout)
-                    ctx.fail("oracle", key, f"solve_ode_bvp(no_derivatives=True) raised {type(e).__name__}: {e}", witness=prob)
+                    ctx.fail("oracle", key, f"solve_ode_ivp(no_derivatives=True) raised {type(e).__name__}: {e}", witness=prob)
                     continue
-                if o2.shape != (pts_n,) or np.max(np.abs(o2 - out[0])) > 1e-9 * (1 + np.max(np.abs(out[0]))):
-                    ctx.fail("oracle", "ode.solve_ode_bvp:no_derivatives", f"solve_ode_bvp(no_derivatives=True) does not return y (shape {o2.shape})",
-                             witness=prob, snippet=snippet_nod(prob, "bvp"))
+                if not prob["tf"]:
+                    o2 = o2[0] if o2.shape == (order, pts_n) else o2[None]      # without a transform the option has no effect (documented)
+                if o2.shape != (pts_n,) or np.max(np.abs(o2 - out[0])) > 1e-12 * (1 + np.max(np.abs(out[0]))):
+                    ctx.fail("oracle", f"ode.solve_ode_ivp:no_derivatives", f"solve_ode_ivp(no_derivatives=True) does not return row 0 of the full answer (shape {o2.shape})",
+                             witness=prob, snippet=snippet_nod(prob, "ivp"))
                 else:
-                    _audit_returned_callable(ctx, prob, s2, "solve_ode_bvp", True, acc)
+                    _audit_returned_callable(ctx, prob, s2, "solve_ode_ivp", True, tol)
 
-    # ---- round 3: scaled equations, amplitude homogeneity / additivity, fresh process, smallest meshes ------------------
-    if not enough():
-        _oracle_round3(ctx, cat, only, large)
 
-    # ---- audit: container kinds and dtypes of every argument ----------------------------------------------------------
-    if not enough():
-        _audit_containers(ctx, only)
+    def part_bvp():
+        # ---- BVP ----------------------------------------------------------------------------------------------------
+        # every transform x every order once, the kind of the condition set rotating (value conditions, derivative
+        # conditions at both ends, everything at one end, second-derivative conditions; well-posedness is checked
+        # independently of the library by _bvp_functional_cond); extreme parameters; random extra cases
+        plan = []
+        k0 = rng.randrange(len(BC_KINDS))
+        for ni, name in enumerate(names):
+            if cat[name][2].get("no_bvp"):
+                continue
+            for order in (1, 2, 3):
+                plan.append((name, order, {"sweep": True, "bc_kind": BC_KINDS[(k0 + ni + 2 * order) % len(BC_KINDS)], "nod": (ni + order) % 3 == 0}))
+        for label, prob in extreme_bvp_problems(rng, cat, large or ctx.thorough):
+            plan.append((prob["tfname"], len(prob["coeffs"]) - 1, {"prob": prob, "extreme": label, "sweep": True, "tol_factor": 5.0}))
+        for _ in range((120 if only else 300) if large else ctx.n(30, 700)):
+            name = rng.choice(names)
+            if not cat[name][2].get("no_bvp"):
+                plan.append((name, rng.choice([o for o in [1, 2, 3, 3] if o in orders_on]), {"bc_kind": rng.choice(BC_KINDS), "nod": rng.random() < 0.15}))
+        plan = [p for p in plan if p[1] in orders_on] if "bvp" in kinds_on else []
+        timeouts = 0
+        for name, order, opt in plan:
+            if timeouts >= 4:
+                ctx.info("BVP exploration stopped after 4 solves that did not finish within the time limit")
+                break
+            if enough():
+                break
+            prob = opt.get("prob") or _gen_bvp_problem(rng, order, name, cat, opt["bc_kind"])
+            key = f"ode.solve_ode_bvp:order{order}:{name}" if "extreme" not in opt else f"ode.solve_ode_bvp:extreme:{opt['extreme']}"
+            ctx.tagc(f"oracle:bvp:conditions:{prob.get('bc_kind', 'given')}")
+            acc = BVP_ACCEPT * opt.get("tol_factor", 1.0) * cat[name][2].get("bvp_tol_factor", 1.0)
+            ctx.count(["bvp", prob], nontrivial=nontrivial_problem(prob, cat), tag=f"oracle:bvp:order{order}")
+            pts = np.linspace(prob["span"][0], prob["span"][1], pts_n)
+            try:
+                try:
+                    with time_limit(SOLVE_TIME_LIMIT):
+                        sol, bd = run_bvp(prob)
+                        errs, out = errors(prob, sol, pts)
+                except ValueError as e:
+                    # extreme-parameter problems: SciPy's solve_bvp may exhaust its node budget at tol 1e-8 for a particular draw
+                    # (status 1; seen on the unchanged tree through HandyModRTransform(0.1, 10, 3) on [-0.9, 0.99], third order,
+                    # where 100 000 nodes do not help either while the direct solve is accurate): a limit of the integrator at that
+                    # tolerance, not a wrong answer - such a draw is solved once more at tol 1e-6 and accepted 100 times wider
+                    if "extreme" not in opt or "status: 1" not in str(e):
+                        raise
+                    ctx.info(f"solve_bvp exhausted its node budget at tol {prob['tol']} on {key}; solved again at tol 1e-6")
+                    prob["tol"] = 1e-6
+                    acc = acc * 100.0
+                    with time_limit(SOLVE_TIME_LIMIT):
+                        sol, bd = run_bvp(prob)
+                        errs, out = errors(prob, sol, pts)
+            except Exception as e:
+                timeouts += isinstance(e, SolveTimeout)
+                ctx.fail("oracle", key, f"solve_ode_bvp raised {type(e).__name__}: {e} on an order-{order} problem ({prob['tf'] or 'no transform'})",
+                         witness=prob, snippet=snippet_bvp(prob, acc))
+                continue
+            if max(errs) > acc:
+                ctx.fail("oracle", key,
+                         f"solve_ode_bvp order {order} through {prob['tf'] or 'no transform'} (tol {BVP_TOL}): relative errors of [y, y', ..] = {errs} > {acc}",
+                         witness={"problem": prob, "errors": errs, "bd_cond": bd}, snippet=snippet_bvp(prob, acc))
+                continue
+            if opt.get("sweep") or rng.random() < 0.2:
+                _audit_returned_callable(ctx, prob, sol, "solve_ode_bvp", False, acc)
+            # prescribed boundary conditions: value conditions on y itself; derivative conditions, mapped back to x
+            mesh = mesh_of(prob) if prob["tf"] else np.linspace(prob["span"][0], prob["span"][1], prob["nmesh"])
+            ends = [float(mesh[0]), float(mesh[-1])]
+            for (i, j, c) in bd:
+                got = float(np.atleast_2d(sol(np.array([ends[i]])))[j, 0])
+                want = float(y_deriv(prob["y"], j)(ends[i]))
+                if abs(got - want) > acc * (1 + abs(want)):
+                    ctx.fail("oracle", key, f"solve_ode_bvp: boundary condition ({i},{j}) not met in the original variable: {got} vs {want}",
+                             witness={"problem": prob, "bd_cond": bd}, snippet=snippet_bvp(prob, acc))
+            if prob["tf"]:
+                try:
+                    with time_limit(SOLVE_TIME_LIMIT):
+                        sold, _ = run_bvp(prob, tf=None)
+                        outd = np.atleast_2d(sold(pts))
+                    diff = max(float(np.max(np.abs(out[k] - outd[k])) / (1 + np.max(np.abs(outd[k])))) for k in range(order))
+                    if diff > 2 * acc:
+                        ctx.fail("oracle", key, f"solve_ode_bvp: through {prob['tf']} differs from the direct solve by {diff}",
+                                 witness={"problem": prob, "difference": diff}, snippet=snippet_bvp(prob, acc))
+                except Exception as e:
+                    timeouts += isinstance(e, SolveTimeout)
+                    ctx.fail("oracle", f"ode.solve_ode_bvp:order{order}:none", f"direct solve raised {type(e).__name__}: {e}", witness=prob)
+                if opt.get("nod"):
+                    try:
+                        with time_limit(SOLVE_TIME_LIMIT):
+                            s2, _ = run_bvp(prob, no_derivatives=True)       # the default of solve_ode_bvp
+                            o2 = np.asarray(s2(pts))
+                    except Exception as e:
+                        timeouts += isinstance(e, SolveTimeout)
+                        ctx.fail("oracle", key, f"solve_ode_bvp(no_derivatives=True) raised {type(e).__name__}: {e}", witness=prob)
+                        continue
+                    if o2.shape != (pts_n,) or np.max(np.abs(o2 - out[0])) > 1e-9 * (1 + np.max(np.abs(out[0]))):
+                        ctx.fail("oracle", "ode.solve_ode_bvp:no_derivatives", f"solve_ode_bvp(no_derivatives=True) does not return y (shape {o2.shape})",
+                                 witness=prob, snippet=snippet_nod(prob, "bvp"))
+                    else:
+                        _audit_returned_callable(ctx, prob, s2, "solve_ode_bvp", True, acc)
+
+
+    # ---- round 4: every part runs, whatever happens in the others (crash-proofing) -----------------------------------------
+    def guarded(fn):
+        return lambda: None if enough() else fn()
+
+    _run_parts(ctx, "oracle", [
+        ("sequences", lambda: _audit_sequences(ctx, cat, only)), ("initial-value-problems", part_ivp), ("boundary-value-problems", part_bvp),
+        ("round3", guarded(lambda: _oracle_round3(ctx, cat, only, large))), ("round4", guarded(lambda: _oracle_round4(ctx, cat, only, large))),
+        ("containers", guarded(lambda: _audit_containers(ctx, only)))])
 
 
 
@@ -1883,6 +1921,289 @@ def check_end_of_domain(case):
 exec(R3_HELPERS, _ns)
 _AUDIT_HEADER = HELPERS + AUDIT_HELPERS + R3_HELPERS + "\nimport signal; signal.alarm(300)\n"
 
+# ---- round 4: evaluation arrays of every kind (classes 14, 20), transform parameters of every scalar kind (14), argument
+#      forms (15), one argument object for several requests / views into larger arrays (16), raising calls (18) ----------------
+R4_HELPERS = r'''
+def _eval_kinds(a, b, order, fr, f32=False):
+    # -> [(label, array-like, strict)]: strict kinds are 1-D float arrays (documented input, must be right); the others may
+    # be rejected with TypeError / IndexError / ValueError, but an answer that is given must be right
+    u = [a + (b - a) * f for f in fr]                       # three interior points
+    asc = np.array(sorted([a, u[0], u[1], u[2], b]))
+    big = np.zeros(12)
+    big[1::2] = [u[2], a, u[0], b, u[1], u[0]]
+    big[0::2] = 1e300                                        # (never read: a read through the wrong stride would show)
+    ro = big[1::2][:4]
+    ro.setflags(write=False)
+    mid = u[1]
+    strict = [
+        ('descending:negative-stride-view', asc[::-1]), ('strided-read-only-view', ro),
+        ('shuffled-with-duplicates', np.array([u[1], b, u[0], a, u[1], u[0]])), ('all-equal', np.array([mid, mid])),
+        ('one-point', np.array([b])), ('two-points-descending', np.array([b, a])),
+        ('as-many-points-as-rows', np.array([b, a, u[0]][:max(order, 1)])),
+    ] + ([('float32', np.array([u[0], u[2], u[1]]).astype(np.float32))] if f32 else [])
+    loose = [
+        ('list', [u[2], a, u[0]]), ('tuple', (b, u[1])), ('0-d-array', np.array(u[0])), ('python-float', float(u[2])),
+        ('2-d:(2,3)-fortran', np.asfortranarray(np.array([[u[2], a, u[0]], [b, u[1], u[0]]]))), ('2-d:(1,2)', np.array([[b, a]])),
+        ('2-d:(2,1)', np.array([[u[1]], [a]])), ('empty', np.array([])),
+    ]
+    return [(l, v, True) for l, v in strict] + [(l, v, False) for l, v in loose]
+
+def check_callable_kinds(prob, sol, nod, fr, tol, f32=False):
+    # The callable on evaluation arrays of every kind: descending, views with negative / non-unit stride, read-only,
+    # duplicates, all points equal, 1 / 2 / `order` points, float32; lists, tuples, 0-d, 2-D shapes with unequal dimensions.
+    # Reference: the exact solution, and the callable itself on the sorted array of the distinct points (bit-level agreement
+    # of each column with that evaluation, whatever the position of the point in the array).
+    order = len(prob['coeffs']) - 1
+    a, b = float(prob['span'][0]), float(prob['span'][1])
+    only_y = bool(nod and prob['tf'])
+    rows = 1 if only_y else order
+    kinds = _eval_kinds(a, b, order, fr, f32)
+    allpts = np.unique(np.concatenate([np.asarray(v, dtype=float).ravel() for l, v, st in kinds if l != 'float32']))
+    ref = np.asarray(sol(allpts))
+    ref = ref[None, :] if only_y else np.atleast_2d(ref)
+    if ref.shape != (rows, allpts.size):
+        raise Violation('shape', f'{allpts.size} ascending points: returned shape {ref.shape}')
+    ex = np.array([y_deriv(prob['y'], k)(allpts) for k in range(rows)])
+    scale = 1 + np.max(np.abs(ex), axis=1)
+    err = float(np.max(np.abs(ref - ex) / scale[:, None]))
+    if not err <= tol:
+        raise Violation('unsorted-points', f'ascending distinct points {allpts.tolist()}: off the exact solution by {err:.3g} > {tol}')
+    for label, v, strict in kinds:
+        keep = np.array(v, dtype=float, copy=True) if not isinstance(v, (list, tuple, float)) else None
+        try:
+            out = np.asarray(sol(v))
+        except (TypeError, IndexError, ValueError) as e:
+            if strict:
+                raise Violation('evaluation-array', f'no_derivatives={nod}, points {label} = {np.asarray(v).tolist()}: raised {type(e).__name__}: {e}')
+            continue
+        if keep is not None and not np.array_equal(np.asarray(v, dtype=float), keep):
+            raise Violation('caller-data', f'points {label}: the callable modified the array of points it was given')
+        pv = np.asarray(v, dtype=float)
+        want_shape = pv.shape if only_y else (order,) + pv.shape
+        if out.shape != want_shape:
+            if strict:
+                raise Violation('shape', f'no_derivatives={nod}, order {order}, points {label} of shape {pv.shape}: returned shape {out.shape}')
+            continue     # (a 0-d point with no_derivatives=True hands back the integrator's vector: recorded assumption)
+        O = out.reshape((rows, -1))
+        flat = pv.ravel()
+        if label == 'float32':
+            # interior points in single precision (the transform then computes in single precision): y itself to 5e-5
+            exk = y_deriv(prob['y'], 0)(flat)
+            d = float(np.max(np.abs(O[0] - exk)) / scale[0])
+            bound = max(tol, 5e-5)
+        else:
+            idx = np.searchsorted(allpts, flat)
+            d = float(np.max(np.abs(O - ref[:, idx]) / scale[:, None])) if flat.size else 0.0
+            bound = 1e-11
+        if not d <= bound:
+            raise Violation('evaluation-array', f'no_derivatives={nod}, order {order}, points {label} = {pv.tolist()}: the returned rows '
+                            f'{O.tolist()} differ by {d:.3g} (relative, allowed {bound}) from the rows the same callable gives for the same points in ascending order')
+    return 'ok'
+
+def check_param_kinds(case):
+    # class 14: the scalars held by the transform object as Python ints, NumPy integers, np.float64, 0-d arrays (same values:
+    # bit-identical answers expected) and np.float32 (single-precision transform: 5e-5)
+    prob = case['prob']
+    kind = case['kind']
+    pts = np.linspace(prob['span'][0], prob['span'][1], 7)[UNSORTED7]
+    solve = (lambda p: np.atleast_2d(run_ivp(p)(pts))) if kind == 'ivp' else (lambda p: np.atleast_2d(run_bvp(p)[0](pts)))
+    ref = solve(dict(prob, tf=case['tf_float']))
+    ex, sc = _rows_exact(prob, pts)
+    e0 = _rel(ref, ex, sc)
+    if not e0 <= case['acc']:
+        raise Violation('accuracy', f'Python-float parameters {case["tf_float"]}: off the exact solution by {e0:.3g} > {case["acc"]}')
+    for label, text, bound in case['variants']:
+        try:
+            out = solve(dict(prob, tf=text))
+        except Exception as e:
+            raise Violation('transform-parameters', f'{text}: raised {type(e).__name__}: {e}')
+        d = _rel(out, ref, sc) if out.shape == ref.shape else float('inf')
+        if not d <= bound:
+            raise Violation('transform-parameters', f'{text} ({label}): the rows differ from those with Python-float parameters {case["tf_float"]} by {d:.3g} (allowed {bound})')
+    return 'ok'
+
+def check_argument_forms(case):
+    # class 15: positional vs keyword, omitted vs explicit None vs explicit default: every form must give bit for bit the
+    # answer of the plain call
+    prob, kind = case['prob'], case['kind']
+    order = len(prob['coeffs']) - 1
+    tf = make_tf(prob)
+    pts = np.linspace(prob['span'][0], prob['span'][1], 7)[UNSORTED7]
+    f = rhs(prob)
+    co = [coeff_fn(c) for c in prob['coeffs']]
+    if kind == 'ivp':
+        y0 = [float(y_deriv(prob['y'], k)(prob['span'][0])) for k in range(order)]
+        sp = span_of(prob)
+        plain = (lambda: solve_ode_ivp(sp, f, co, y0, tf)) if tf is not None else (lambda: solve_ode_ivp(sp, f, co, y0))
+        forms = {
+            'all-keywords': lambda: solve_ode_ivp(x_span=sp, fx=f, coeffs=co, y0=y0, transform=tf),
+            'keywords-in-another-order': lambda: solve_ode_ivp(transform=tf, y0=y0, coeffs=co, fx=f, x_span=sp),
+            'defaults-written-out': lambda: solve_ode_ivp(sp, f, co, y0, tf, method='DOP853', no_derivatives=False, rtol=1e-8, atol=1e-6),
+            'defaults-positional': lambda: solve_ode_ivp(sp, f, co, y0, tf, 'DOP853', False, 1e-8, 1e-6),
+            'transform-by-keyword': lambda: solve_ode_ivp(sp, f, co, y0, transform=tf),
+        }
+        if tf is None:
+            forms['transform-explicit-None'] = lambda: solve_ode_ivp(sp, f, co, y0, None)
+    else:
+        mesh = mesh_of(prob) if tf is not None else np.linspace(prob['span'][0], prob['span'][1], prob['nmesh'])
+        bd = bvp_conditions(prob, tf) if tf is not None else run_bvp_bd(prob)
+        g = np.zeros((order, mesh.size))
+        plain = lambda: solve_ode_bvp(mesh, f, co, bd, tf, initial_guess_y=g)
+        forms = {
+            'all-keywords': lambda: solve_ode_bvp(x=mesh, fx=f, coeffs=co, bd_cond=bd, transform=tf, initial_guess_y=g),
+            'keywords-in-another-order': lambda: solve_ode_bvp(initial_guess_y=g, transform=tf, bd_cond=bd, coeffs=co, fx=f, x=mesh),
+            'defaults-written-out': lambda: solve_ode_bvp(mesh, f, co, bd, tf, tol=1e-4, max_nodes=5000, initial_guess_y=g, no_derivatives=True),
+            'defaults-positional': lambda: solve_ode_bvp(mesh, f, co, bd, tf, 1e-4, 5000, g, True),
+        }
+        if tf is None:
+            forms['transform-omitted'] = lambda: solve_ode_bvp(mesh, f, co, bd, initial_guess_y=g)
+            forms['transform-explicit-None'] = lambda: solve_ode_bvp(mesh, f, co, bd, None, 1e-4, 5000, g)
+    ref = np.asarray(plain()(pts))
+    ex, sc = _rows_exact(prob, pts)
+    R = np.atleast_2d(ref)
+    if kind == 'bvp' and tf is not None:
+        R = ref[None, :] if ref.ndim == 1 else ref       # default no_derivatives=True: y only
+    e0 = _rel(R[:1], ex[:1], sc[:1])
+    if not e0 <= case['acc']:
+        raise Violation('default-tolerances', f'plain call with every default: y off the exact solution by {e0:.3g} > {case["acc"]}')
+    for label, call in forms.items():
+        try:
+            out = np.asarray(call()(pts))
+        except Exception as e:
+            raise Violation('argument-form', f'{label}: raised {type(e).__name__}: {e}')
+        if out.shape != ref.shape or not np.array_equal(out, ref):
+            raise Violation('argument-form', f'{label}: the answer (shape {out.shape}) differs from that of the plain call (shape {ref.shape}) by '
+                            f'{np.max(np.abs(out - ref)) if out.shape == ref.shape else "shape"}')
+    return 'ok'
+
+def run_bvp_bd(prob):
+    # boundary data of the direct solve, as run_bvp poses them
+    mesh = np.linspace(prob['span'][0], prob['span'][1], prob['nmesh'])
+    ends = [float(mesh[0]), float(mesh[-1])]
+    bd = []
+    for (i, j) in prob['bc']:
+        i2 = (1 - i) if prob.get('reverse_mesh') else i
+        bd.append((i2, j, float(y_deriv(prob['y'], j)(ends[i2]))))
+    return bd
+
+def check_shared_arguments(case):
+    # class 16: ONE array object serves as y0 of the initial-value solve, as the values of the boundary conditions, as a row of
+    # the initial guess and as the evaluation points; ONE mesh / coefficient array serves both solvers, two and three times; the
+    # arrays are views into larger caller arrays.  Every answer must equal the one computed from pristine copies, and not a
+    # byte of the caller's arrays (views and what surrounds them) may change.
+    order = case['order']
+    CO = COEF[order]
+    tf = eval(case['tf']) if case['tf'] else None
+    big = np.full(4 * order + 9, 7.25)
+    shared = big[3:3 + order]                       # y0 AND the boundary values
+    shared[:] = [1.5, -0.25, 0.75][:order]
+    cbig = np.full(2 * (order + 1) + 4, -3.5)
+    co = cbig[2:2 + 2 * (order + 1):2]              # strided view: the coefficients
+    co[:] = CO
+    mbig = np.full(23, 9.5)
+    mesh = mbig[4:13]                               # the mesh AND the evaluation points
+    mesh[:] = np.linspace(1.0, 2.0, 9)
+    fx = lambda x: 1.0 + 0 * np.asarray(x, dtype=float)
+    snap = [v.copy() for v in (big, cbig, mbig)]
+    P = dict(y0=list(map(float, shared)), co=list(map(float, co)), mesh=mesh.copy())
+    kw = dict(method=case.get('method', 'DOP853'), rtol=1e-10, atol=1e-12)
+    bc = [(0, j) for j in range(order)]
+    def bd_of(vals):
+        return [(i, j, float(vals[j])) for (i, j) in bc]
+    ref_i = np.atleast_2d(solve_ode_ivp((1.0, 2.0), fx, P['co'], P['y0'], tf, **kw)(P['mesh']))
+    ref_b = np.atleast_2d(solve_ode_bvp(P['mesh'], fx, P['co'], bd_of(P['y0']), tf, tol=1e-8, max_nodes=20000,
+                                        initial_guess_y=np.zeros((order, 9)), no_derivatives=False)(P['mesh']))
+    E = cc_exact_ivp(order, P['co'], 1.0, 0.0, 1.0, P['y0'])(P['mesh'])
+    sc = 1 + np.max(np.abs(E))
+    if not np.max(np.abs(ref_i - E)) <= 1e-7 * sc:
+        raise Violation('canonical', f'pristine arguments: solve_ode_ivp off the exact solution by {np.max(np.abs(ref_i - E)) / sc:.3g}')
+    def unchanged(step):
+        for name, v, w in zip(('y0 / boundary values', 'coefficients', 'mesh / points'), (big, cbig, mbig), snap):
+            if not np.array_equal(v, w):
+                raise Violation('caller-data', f'{step}: the caller array holding the {name} changed: {v.tolist()} (was {w.tolist()})')
+    for step in case['steps']:
+        if step == 'ivp':
+            out = np.atleast_2d(solve_ode_ivp((1.0, 2.0), fx, co, shared, tf, **kw)(mesh))
+            ref = ref_i
+        elif step == 'bvp':
+            guess = np.zeros((order, 9))
+            out = np.atleast_2d(solve_ode_bvp(mesh, fx, co, bd_of(shared), tf, tol=1e-8, max_nodes=20000, initial_guess_y=guess,
+                                              no_derivatives=False)(mesh))
+            ref = ref_b
+        else:                                           # the SAME array as every row of the initial guess and as the mesh
+            guess = np.broadcast_to(mesh, (order, 9))
+            out = np.atleast_2d(solve_ode_bvp(mesh, fx, co, bd_of(shared), tf, tol=1e-8, max_nodes=20000, initial_guess_y=guess,
+                                              no_derivatives=False)(mesh))
+            ref = None
+        unchanged(step)
+        if ref is not None and (out.shape != ref.shape or not np.array_equal(out, ref)):
+            raise Violation('shared-argument', f'step {step} of {case["steps"]}: with the shared / view arguments the answer differs from the one with '
+                            f'pristine copies by {np.max(np.abs(out - ref)) if out.shape == ref.shape else out.shape}')
+        if ref is None and not np.max(np.abs(out - ref_b)) <= 1e-6 * (1 + np.max(np.abs(ref_b))):
+            raise Violation('shared-argument', f'step {step}: differs from the solve with a zero guess by {np.max(np.abs(out - ref_b)):.3g}')
+    return 'ok'
+
+def check_raise_no_trace(case):
+    # class 18: an accepted solve, then calls that end in an exception (with the very same objects), then the accepted solve
+    # again: bit for bit the first answer; the caller objects unchanged
+    prob = case['prob']
+    order = len(prob['coeffs']) - 1
+    o = build_call_objects(prob, 'ndarray')
+    snap = {k: freeze(v) for k, v in o.items()}
+    pts = np.linspace(prob['span'][0], prob['span'][1], 7)[UNSORTED7]
+    ikw = dict(method=prob['method'], rtol=prob['rtol'], atol=prob['atol'])
+    bkw = dict(tol=prob['tol'], max_nodes=prob['max_nodes'], no_derivatives=False)
+    good = {'ivp': lambda: solve_ode_ivp(o['span'], o['fx'], o['coeffs'], o['y0'], o['tf'], **ikw)(pts),
+            'bvp': lambda: solve_ode_bvp(o['mesh'], o['fx'], o['coeffs'], o['bd'], o['tf'], initial_guess_y=o['guess'], **bkw)(pts)}
+    first = {k: np.asarray(g()) for k, g in good.items()}
+    ex, sc = _rows_exact(prob, pts)
+    for k, v in first.items():
+        if v.shape != ex.shape or not _rel(v, ex, sc) <= case['acc'][k]:
+            raise Violation('accuracy', f'{k}: first solve off the exact solution by {_rel(v, ex, sc) if v.shape == ex.shape else v.shape}')
+    lo, hi = o['tf'].domain if o['tf'] is not None else (-np.inf, np.inf)
+    outside = (float(o['span'][0]), float(hi) + 1.0) if np.isfinite(hi) else (float(lo) - 1.0, float(o['span'][1]))
+    bad = {
+        'ivp:too-few-initial-values': lambda: solve_ode_ivp(o['span'], o['fx'], o['coeffs'], o['y0'][:-1], o['tf'], **ikw),
+        'ivp:order-4-with-transform': lambda: solve_ode_ivp(o['span'], o['fx'], list(o['coeffs']) + [1.0], list(o['y0']) + [0.0], o['tf'], **ikw),
+        'ivp:span-outside-the-domain': lambda: solve_ode_ivp(outside, o['fx'], o['coeffs'], o['y0'], o['tf'], **ikw),
+        'ivp:coefficient-of-a-wrong-type': lambda: solve_ode_ivp(o['span'], o['fx'], list(o['coeffs'][:-1]) + ['1.0'], o['y0'], o['tf'], **ikw),
+        'ivp:right-hand-side-raises': lambda: solve_ode_ivp(o['span'], (lambda x: (_ for _ in ()).throw(ZeroDivisionError('rhs'))), o['coeffs'], o['y0'], o['tf'], **ikw),
+        'ivp:unknown-method': lambda: solve_ode_ivp(o['span'], o['fx'], o['coeffs'], o['y0'], o['tf'], method='no-such-method'),
+        'bvp:too-many-conditions': lambda: solve_ode_bvp(o['mesh'], o['fx'], o['coeffs'], list(o['bd']) + [[0, 0, 1.0]], o['tf'], initial_guess_y=o['guess'], **bkw),
+        'bvp:node-budget-of-3': lambda: solve_ode_bvp(o['mesh'], o['fx'], o['coeffs'], o['bd'], o['tf'], initial_guess_y=o['guess'], tol=1e-13, max_nodes=3, no_derivatives=False),
+        'bvp:condition-on-a-row-that-does-not-exist': lambda: solve_ode_bvp(o['mesh'], o['fx'], o['coeffs'], [[0, order + 2, 1.0]] + [list(t) for t in o['bd'][1:]], o['tf'], initial_guess_y=o['guess'], **bkw),
+        'bvp:guess-of-a-wrong-shape': lambda: solve_ode_bvp(o['mesh'], o['fx'], o['coeffs'], o['bd'], o['tf'], initial_guess_y=np.zeros((order + 1, 3)), **bkw),
+        'callable:point-list': lambda: good_sol(['a']),
+    }
+    good_sol = solve_ode_ivp(o['span'], o['fx'], o['coeffs'], o['y0'], o['tf'], **ikw)
+    raised = 0
+    for name in case['bad']:
+        if o['tf'] is None and name in ('ivp:span-outside-the-domain', 'ivp:order-4-with-transform'):
+            continue
+        try:
+            bad[name]()
+        except Exception:
+            raised += 1
+        for k2, v in o.items():
+            if freeze(v) != snap[k2]:
+                raise Violation('caller-data', f'after the rejected call {name}: the caller object {k2} changed')
+        for k, g in good.items():
+            if not case.get('both') and name[:3] in ('ivp', 'bvp') and k != name[:3]:
+                continue          # (quick tier: after a raising solve_ode_ivp call the accepted solve_ode_ivp call, and likewise for bvp)
+            again = np.asarray(g())
+            if again.shape != first[k].shape or not np.array_equal(again, first[k]):
+                raise Violation('trace-of-a-raising-call', f'after the call {name} (which ended in an exception) the accepted {k} solve differs from the same '
+                                f'solve before it by {np.max(np.abs(again - first[k])) if again.shape == first[k].shape else again.shape}')
+        now = np.asarray(good_sol(pts))
+        if not np.array_equal(now, first['ivp']):
+            raise Violation('trace-of-a-raising-call', f'after the call {name} a callable obtained earlier answers differently')
+    if raised == 0:
+        raise Violation('trace-of-a-raising-call', 'none of the malformed calls was rejected')
+    return 'ok'
+'''
+exec(R4_HELPERS, _ns)
+_AUDIT_HEADER = HELPERS + AUDIT_HELPERS + R3_HELPERS + R4_HELPERS + "\nimport signal; signal.alarm(300)\n"
+
 
 def _guarded(setup, call):
     """snippet tail: any exception of the library on a legitimate input counts as a failure (AssertionError)"""
@@ -1917,6 +2238,32 @@ _TYPED_TFS_12 = [        # transforms whose domain contains the interval [1, 3] 
     "InverseRTransform(MultiExpRTransform(0.1, 1.5))",
 ]
 _RO = "(lambda a: (a.setflags(write=False), a)[1])"        # make an array read-only
+
+# round 4 (class 17): value kinds of what the user's callables return / of the numbers in coeffs and y0.  Complex values with a
+# vanishing imaginary part are either treated as the real number or rejected (TypeError: NumPy refuses the cast into the float
+# coefficient table); a right-hand side with a NON-zero imaginary part is outside the property (SciPy's real integrators drop it
+# with a ComplexWarning).  (what, over, extra, "ivp" = only for solve_ode_ivp / "both")
+_KINDS4 = "[np.full(np.shape(x), V), np.full(np.shape(x), V, dtype=np.float32), V, np.array(V)]"
+R4_VALUE_KINDS = [
+    ("fx=bool-array", {"fx": "lambda x: np.ones(np.shape(x), dtype=bool)"}, {"C": 1.0}, "both"),
+    ("fx=longdouble-array", {"fx": "lambda x: np.full(np.shape(x), 0.75, dtype=np.longdouble)"}, {"C": 0.75, "eq_tol": 1e-9}, "both"),
+    ("fx=complex128-zero-imaginary-part", {"fx": "lambda x: np.full(np.shape(x), 0.75 + 0j)"}, {"C": 0.75, "may_raise": ["TypeError"]}, "both"),
+    ("fx=python-complex-zero-imaginary-part", {"fx": "lambda x: complex(0.75, 0.0)"}, {"C": 0.75, "may_raise": ["TypeError"]}, "both"),
+    ("fx=0-d-array", {"fx": "lambda x: np.array(0.75)"}, {"C": 0.75}, "both"),
+    ("fx=np.float32-scalar", {"fx": "lambda x: np.float32(0.75)"}, {"C": 0.75}, "both"),
+    ("fx=kind-changes-from-call-to-call",
+     {"fx": "(lambda n=[0], V=0.75: (lambda x: (n.__setitem__(0, n[0] + 1), " + _KINDS4 + "[n[0] % 4])[1]))()"}, {"C": 0.75}, "both"),
+    ("coeffs=callables-returning-0-d-array", {"coeffs": "[(lambda x, c=c: np.array(c)) for c in CO]"}, {}, "both"),
+    ("coeffs=callables-returning-longdouble", {"coeffs": "[(lambda x, c=c: np.full(x.shape, c, dtype=np.longdouble)) for c in CO]"}, {"eq_tol": 1e-9}, "both"),
+    ("coeffs=callable-returning-bool-leading", {"coeffs": "list(CO[:-1]) + [lambda x: np.ones(x.shape, dtype=bool)]"}, {}, "both"),
+    ("coeffs=callables-returning-complex-zero-imaginary-part", {"coeffs": "[(lambda x, c=c: np.full(x.shape, c + 0j)) for c in CO]"}, {"may_raise": ["TypeError"]}, "both"),
+    ("coeffs=python-complex-zero-imaginary-part", {"coeffs": "[complex(c, 0.0) for c in CO]"}, {"may_raise": ["TypeError"]}, "both"),
+    ("coeffs=np.longdouble", {"coeffs": "[np.longdouble(c) for c in CO]"}, {"eq_tol": 1e-9}, "both"),
+    ("coeffs=kind-changes-from-call-to-call",
+     {"coeffs": "[(lambda x, V=c, n=[0]: (n.__setitem__(0, n[0] + 1), " + _KINDS4 + "[n[0] % 4])[1]) for c in CO]"}, {}, "both"),
+    ("y0=longdouble-array", {"y0": "np.array(Y0, dtype=np.longdouble)"}, {"eq_tol": 1e-9}, "ivp"),
+    ("y0=list-of-0-d-arrays-and-bools", {"y0": "[np.array(2.0), True, np.float32(0.5)][:ORDER]"}, {}, "ivp"),
+]
 
 TYPED_IVP = [
     # (what, over, extra case fields)
@@ -1965,7 +2312,7 @@ TYPED_IVP = [
     ("fx=identity-returns-its-argument", {"fx": "EchoFx()"}, {"C": 0.0, "C1": 1.0}),
     ("fx=read-only-array", {"fx": "lambda x: " + _RO + "(np.full(np.shape(x), 1.0))"}, {}),
     ("fx=cached-array", {"fx": "lambda x, m={}: m.setdefault(np.size(x), np.full(np.shape(x), 1.0))"}, {}),
-]
+] + [(w, o, e) for w, o, e, k in R4_VALUE_KINDS]
 
 TYPED_BVP = [
     ("bd_cond=list-of-tuples", {"bd": "[tuple(t) for t in BD]"}, {}),
@@ -1994,7 +2341,7 @@ TYPED_BVP = [
     ("fx=identity-returns-its-argument", {"fx": "EchoFx()"}, {"C": 0.0, "C1": 1.0}),
     ("fx=read-only-array", {"fx": "lambda x: " + _RO + "(np.full(np.shape(x), 1.0))"}, {}),
     ("fx=cached-array", {"fx": "lambda x, m={}: m.setdefault(np.size(x), np.full(np.shape(x), 1.0))"}, {}),
-]
+] + [(w, o, e) for w, o, e, k in R4_VALUE_KINDS if k != "ivp"]
 _TYPED_BC = {1: [[(0, 0)], [(1, 0)]], 2: [[(0, 0), (1, 1)], [(0, 1), (1, 0)], [(0, 1), (1, 1)]],
              3: [[(0, 0), (1, 2), (0, 1)], [(1, 0), (0, 2), (1, 1)], [(0, 2), (1, 2), (0, 0)]]}
 
@@ -2013,8 +2360,12 @@ def _audit_containers(ctx, only=None):
             for rep in range(reps):
                 # each variant: once directly, once through a (rotating) non-affine transform; orders rotating
                 tfs = _TYPED_TFS_12 if kind == "ivp" else _TYPED_TFS_12[:-1]      # the last one is decreasing: IVP only
+                r4kind = any(what == w for w, _, _, _ in R4_VALUE_KINDS)
+                pick_tf = (k // 2) % 2 == 1
                 for tf in ("", tfs[k % len(tfs)]):
                     k += 1
+                    if r4kind and reps == 1 and bool(tf) != pick_tf:
+                        continue      # quick tier: the value kinds of round 4 once each, directly / through a transform alternating
                     order = extra.get("order", [3, 2, 3, 2, 1][k % 5])     # (index kinds: order 3, so that a (., 2) condition occurs)
                     if order not in orders:
                         order = sorted(orders)[-1]
@@ -2158,10 +2509,23 @@ def _audit_returned_callable(ctx, prob, sol, fn, nod, tol):
 
     def key_of(tag):
         return {"shape": f"ode.{fn}:returned-shape", "raised": f"ode.{fn}:returned-callable:raised"}.get(tag, f"ode.{fn}:returned-callable:{tag}")
-    return _audit_call(ctx, "check_callable", (prob, sol, nod, fr, tol), key_of,
-                       f"callable returned by {fn} (order {len(prob['coeffs']) - 1}, {prob['tf'] or 'no transform'}, no_derivatives={nod})",
-                       {"problem": prob, "fractions_of_the_interval": fr}, snippet, ["callable", fn, bool(nod), fr, prob],
-                       f"audit:{fn[10:]}:returned-callable" + (":no_derivatives" if nod else ""), nontrivial=bool(prob["tf"]))
+    ok = _audit_call(ctx, "check_callable", (prob, sol, nod, fr, tol), key_of,
+                     f"callable returned by {fn} (order {len(prob['coeffs']) - 1}, {prob['tf'] or 'no transform'}, no_derivatives={nod})",
+                     {"problem": prob, "fractions_of_the_interval": fr}, snippet, ["callable", fn, bool(nod), fr, prob],
+                     f"audit:{fn[10:]}:returned-callable" + (":no_derivatives" if nod else ""), nontrivial=bool(prob["tf"]))
+    # round 4: the same callable on evaluation arrays of every kind (descending, negative / non-unit strides, read-only,
+    # duplicates, 1 / 2 / `order` points, float32; lists, 0-d, 2-D shapes with unequal dimensions)
+    fr3 = u
+    # (single-precision points only for the ordinary problems of the catalogue: with extreme parameters / intervals the transform's
+    #  own single-precision arithmetic - the precision the caller chose - costs more than the 5e-5 asked for)
+    entry = _CATALOGUE.get(prob.get("tfname"))
+    f32 = bool(entry and entry[0] == prob["tf"] and sorted(entry[1]) == sorted(float(v) for v in prob["span"]) and "x0" not in prob["y"])
+    snippet2 = _guarded(f"prob = {prob!r}\n", f"sol = {runner}\ncheck_callable_kinds(prob, sol, {bool(nod)}, {fr3!r}, {tol!r}, {f32!r})")
+    ok2 = _audit_call(ctx, "check_callable_kinds", (prob, sol, nod, fr3, tol, f32), key_of,
+                      f"callable returned by {fn} (order {len(prob['coeffs']) - 1}, {prob['tf'] or 'no transform'}, no_derivatives={nod}) on evaluation arrays of every kind",
+                      {"problem": prob, "fractions_of_the_interval": fr3}, snippet2, ["callable-kinds", fn, bool(nod), fr3, prob],
+                      f"audit:{fn[10:]}:evaluation-array-kinds" + (":no_derivatives" if nod else ""), nontrivial=bool(prob["tf"]))
+    return ok and ok2
 
 
 def snippet_nod(prob, kind):
@@ -2472,90 +2836,110 @@ def _oracle_round3(ctx, cat, only, large):
         return _audit_call(ctx, fn, (case,), lambda t: keys.get(t, keys["*"]), describe, case,
                            _guarded(f"case = {case!r}\n", f"{fn}(case)"), [fn, case], tag, nontrivial=nontrivial)
 
-    # ---- classes 7 / 8: the equation multiplied through by s -------------------------------------------------------------
-    for kind, count in (("ivp", 12 if more else 4), ("bvp", 6 if more else 2)):
-        if kind not in kinds:
-            continue
-        for i in range(count):
+    def part_scaled_equations():
+        nonlocal k
+        # ---- classes 7 / 8: the equation multiplied through by s -------------------------------------------------------------
+        for kind, count in (("ivp", 12 if more else 4), ("bvp", 6 if more else 2)):
+            if kind not in kinds:
+                continue
+            for i in range(count):
+                k += 1
+                name = (R3_TF_NAMES if kind == "ivp" else bvp_names)[k % (len(R3_TF_NAMES) if kind == "ivp" else len(bvp_names))]
+                order = orders[::-1][k % len(orders)]
+                if kind == "ivp":
+                    prob = gen_problem(rng, order, name, cat)
+                    prob.update(method="DOP853", rtol=1e-10, atol=1e-12)
+                else:
+                    prob = _gen_bvp_problem(rng, order, name, cat, BC_KINDS[k % len(BC_KINDS)])
+                lead = _lead_magnitude(prob)
+                w = WARN_WINDOW / lead
+                pool = [1e-12, 0.99 * w, 1.01 * w, 1e12, -1e-12, 0.01 * w, 100 * w, -0.99 * w, 1e-11, 1e-6, 1e6, -1e12, 1e-8]
+                scales = pool if more else [pool[(k + 4 * j) % len(pool)] for j in range(3)]
+                case = {"prob": prob, "kind": kind, "scales": scales, "lead": lead,
+                        "tol": SCALE_TOL_IVP if kind == "ivp" else SCALE_TOL_BVP, "acc": IVP_FACTOR * 1e-10 if kind == "ivp" else BVP_ACCEPT * cat[name][2].get("bvp_tol_factor", 1.0)}
+                run("check_scaled_equation", case,
+                    {"scaled-equation": f"ode.solve_ode_{kind}:scaled-equation", "accuracy": f"ode.solve_ode_{kind}:order{order}:{name}",
+                     "*": f"ode.solve_ode_{kind}:scaled-equation:raised"},
+                    f"solve_ode_{kind}, order {order}, {prob['tf'] or 'no transform'}: the whole equation multiplied through by {scales}",
+                    f"oracle:{kind}:scaled-equation:order{order}", nontrivial=True)
+
+
+    def part_homogeneity():
+        nonlocal k
+        # ---- class 13: amplitude homogeneity and additivity ------------------------------------------------------------------
+        plans = []
+        if "ivp" in kinds:
+            plans += [("ivp", "scaled-atol", HOM_SCALED_ATOL, None, 0.0)] * (6 if more else 3)
+            plans += [("ivp", "default", HOM_DEFAULT_IVP, ACC_DEFAULT_IVP, 4e-5)] * (6 if more else 3)
+        if "bvp" in kinds:
+            plans += [("bvp", "default", HOM_DEFAULT_BVP, ACC_DEFAULT_BVP, 4e-3)] * (5 if more else 2)
+        for i, (kind, mode, table, acc, addb) in enumerate(plans):
             k += 1
             name = (R3_TF_NAMES if kind == "ivp" else bvp_names)[k % (len(R3_TF_NAMES) if kind == "ivp" else len(bvp_names))]
-            order = orders[::-1][k % len(orders)]
-            if kind == "ivp":
-                prob = gen_problem(rng, order, name, cat)
-                prob.update(method="DOP853", rtol=1e-10, atol=1e-12)
-            else:
-                prob = _gen_bvp_problem(rng, order, name, cat, BC_KINDS[k % len(BC_KINDS)])
-            lead = _lead_magnitude(prob)
-            w = WARN_WINDOW / lead
-            pool = [1e-12, 0.99 * w, 1.01 * w, 1e12, -1e-12, 0.01 * w, 100 * w, -0.99 * w, 1e-11, 1e-6, 1e6, -1e12, 1e-8]
-            scales = pool if more else [pool[(k + 4 * j) % len(pool)] for j in range(3)]
-            case = {"prob": prob, "kind": kind, "scales": scales, "lead": lead,
-                    "tol": SCALE_TOL_IVP if kind == "ivp" else SCALE_TOL_BVP, "acc": IVP_FACTOR * 1e-10 if kind == "ivp" else BVP_ACCEPT * cat[name][2].get("bvp_tol_factor", 1.0)}
-            run("check_scaled_equation", case,
-                {"scaled-equation": f"ode.solve_ode_{kind}:scaled-equation", "accuracy": f"ode.solve_ode_{kind}:order{order}:{name}",
-                 "*": f"ode.solve_ode_{kind}:scaled-equation:raised"},
-                f"solve_ode_{kind}, order {order}, {prob['tf'] or 'no transform'}: the whole equation multiplied through by {scales}",
-                f"oracle:{kind}:scaled-equation:order{order}", nontrivial=True)
-
-    # ---- class 13: amplitude homogeneity and additivity ------------------------------------------------------------------
-    plans = []
-    if "ivp" in kinds:
-        plans += [("ivp", "scaled-atol", HOM_SCALED_ATOL, None, 0.0)] * (6 if more else 3)
-        plans += [("ivp", "default", HOM_DEFAULT_IVP, ACC_DEFAULT_IVP, 4e-5)] * (6 if more else 3)
-    if "bvp" in kinds:
-        plans += [("bvp", "default", HOM_DEFAULT_BVP, ACC_DEFAULT_BVP, 4e-3)] * (5 if more else 2)
-    for i, (kind, mode, table, acc, addb) in enumerate(plans):
-        k += 1
-        name = (R3_TF_NAMES if kind == "ivp" else bvp_names)[k % (len(R3_TF_NAMES) if kind == "ivp" else len(bvp_names))]
-        order = orders[k % len(orders)]
-        prob = gen_problem(rng, order, name, cat) if kind == "ivp" else _gen_bvp_problem(rng, order, name, cat, "mixed")
-        amps = list(table) if more else [table[(k + 3 * j) % len(table)] for j in range(3 if mode == "scaled-atol" else 2)]
-        case = {"prob": prob, "kind": kind, "mode": mode, "amplitudes": [list(t) for t in amps],
-                "acc": acc if acc is not None else ACC_DEFAULT_IVP}
-        if mode == "default" and i % 2 == 0:
-            case["second"] = gen_solution(rng)
-            case["add_bound"] = addb
-        run("check_homogeneity", case,
-            {"homogeneity": f"ode.solve_ode_{kind}:amplitude-homogeneity:{mode}", "additivity": f"ode.solve_ode_{kind}:additivity",
-             "default-tolerances": f"ode.solve_ode_{kind}:default-tolerances", "*": f"ode.solve_ode_{kind}:amplitude-homogeneity:raised"},
-            f"solve_ode_{kind}, order {order}, {prob['tf'] or 'no transform'}: right-hand side and data multiplied by {[t[0] for t in amps]} ({mode})",
-            f"oracle:{kind}:homogeneity:{mode}:order{order}", nontrivial=True)
-
-    # ---- intervals ending next to an end of the domain of the trimming transforms -------------------------------------------
-    for case in _end_of_domain_cases(rng, cat, more, kinds, orders):
-        p = case["prob"]
-        kind = case["kind"]
-        order = len(p["coeffs"]) - 1
-        run("check_end_of_domain", case,
-            {"*": f"ode.solve_ode_{kind}:end-of-domain:{case['family']}"},
-            f"solve_ode_{kind}, order {order}, interval ending {case['d']:g} from the {case['end']} end of the domain of {p['tf']}",
-            f"oracle:{kind}:end-of-domain:{case['end']}:{case['family'].split(':')[0]}:d={case['d']:g}", nontrivial=True)
-
-    # ---- class 12: the smallest meshes (two and three nodes) for solve_ode_bvp ------------------------------------------
-    if "bvp" in kinds:
-        for nmesh in (2, 3):
-            k += 1
-            name = bvp_names[k % len(bvp_names)]
             order = orders[k % len(orders)]
-            prob = _gen_bvp_problem(rng, order, name, cat, "mixed")
-            prob["nmesh"] = nmesh
-            acc = BVP_ACCEPT * 5.0 * cat[name][2].get("bvp_tol_factor", 1.0)
-            ctx.count(["bvp-small-mesh", prob], nontrivial=nontrivial_problem(prob, cat), tag=f"oracle:bvp:mesh-of-{nmesh}-nodes")
-            key = f"ode.solve_ode_bvp:mesh-of-{nmesh}-nodes"
-            try:
-                with time_limit(SOLVE_TIME_LIMIT):
-                    sol, bd = run_bvp(prob)
-                    errs, out = errors(prob, sol, np.linspace(prob["span"][0], prob["span"][1], 9))
-                if max(errs) > acc:
-                    ctx.fail("oracle", key, f"solve_ode_bvp on a mesh of {nmesh} nodes, order {order}, {prob['tf'] or 'no transform'}: errors {errs} > {acc}",
-                             witness={"problem": prob, "errors": errs}, snippet=snippet_bvp(prob, acc))
-            except Exception as e:
-                ctx.fail("oracle", key, f"solve_ode_bvp on a mesh of {nmesh} nodes raised {type(e).__name__}: {e}", witness=prob, snippet=snippet_bvp(prob, acc))
+            prob = gen_problem(rng, order, name, cat) if kind == "ivp" else _gen_bvp_problem(rng, order, name, cat, "mixed")
+            amps = list(table) if more else [table[(k + 3 * j) % len(table)] for j in range(3 if mode == "scaled-atol" else 2)]
+            case = {"prob": prob, "kind": kind, "mode": mode, "amplitudes": [list(t) for t in amps],
+                    "acc": acc if acc is not None else ACC_DEFAULT_IVP}
+            if mode == "default" and i % 2 == 0:
+                case["second"] = gen_solution(rng)
+                case["add_bound"] = addb
+            run("check_homogeneity", case,
+                {"homogeneity": f"ode.solve_ode_{kind}:amplitude-homogeneity:{mode}", "additivity": f"ode.solve_ode_{kind}:additivity",
+                 "default-tolerances": f"ode.solve_ode_{kind}:default-tolerances", "*": f"ode.solve_ode_{kind}:amplitude-homogeneity:raised"},
+                f"solve_ode_{kind}, order {order}, {prob['tf'] or 'no transform'}: right-hand side and data multiplied by {[t[0] for t in amps]} ({mode})",
+                f"oracle:{kind}:homogeneity:{mode}:order{order}", nontrivial=True)
 
-    # ---- class 11: the first call of a fresh interpreter uses non-default options ------------------------------------------
-    if only is None:
-        _audit_fresh_process(ctx, cat, 2 * k)          # a boundary-value variant
-        _audit_fresh_process(ctx, cat, 2 * k + 1)      # an initial-value variant
+
+    def part_end_of_domain():
+        nonlocal k
+        # ---- intervals ending next to an end of the domain of the trimming transforms -------------------------------------------
+        for case in _end_of_domain_cases(rng, cat, more, kinds, orders):
+            p = case["prob"]
+            kind = case["kind"]
+            order = len(p["coeffs"]) - 1
+            run("check_end_of_domain", case,
+                {"*": f"ode.solve_ode_{kind}:end-of-domain:{case['family']}"},
+                f"solve_ode_{kind}, order {order}, interval ending {case['d']:g} from the {case['end']} end of the domain of {p['tf']}",
+                f"oracle:{kind}:end-of-domain:{case['end']}:{case['family'].split(':')[0]}:d={case['d']:g}", nontrivial=True)
+
+
+    def part_small_meshes():
+        nonlocal k
+        # ---- class 12: the smallest meshes (two and three nodes) for solve_ode_bvp ------------------------------------------
+        if "bvp" in kinds:
+            for nmesh in (2, 3):
+                k += 1
+                name = bvp_names[k % len(bvp_names)]
+                order = orders[k % len(orders)]
+                prob = _gen_bvp_problem(rng, order, name, cat, "mixed")
+                prob["nmesh"] = nmesh
+                acc = BVP_ACCEPT * 5.0 * cat[name][2].get("bvp_tol_factor", 1.0)
+                ctx.count(["bvp-small-mesh", prob], nontrivial=nontrivial_problem(prob, cat), tag=f"oracle:bvp:mesh-of-{nmesh}-nodes")
+                key = f"ode.solve_ode_bvp:mesh-of-{nmesh}-nodes"
+                try:
+                    with time_limit(SOLVE_TIME_LIMIT):
+                        sol, bd = run_bvp(prob)
+                        errs, out = errors(prob, sol, np.linspace(prob["span"][0], prob["span"][1], 9))
+                    if max(errs) > acc:
+                        ctx.fail("oracle", key, f"solve_ode_bvp on a mesh of {nmesh} nodes, order {order}, {prob['tf'] or 'no transform'}: errors {errs} > {acc}",
+                                 witness={"problem": prob, "errors": errs}, snippet=snippet_bvp(prob, acc))
+                except Exception as e:
+                    ctx.fail("oracle", key, f"solve_ode_bvp on a mesh of {nmesh} nodes raised {type(e).__name__}: {e}", witness=prob, snippet=snippet_bvp(prob, acc))
+
+
+    def part_fresh_process():
+        nonlocal k
+        # ---- class 11: the first call of a fresh interpreter uses non-default options ------------------------------------------
+        if only is None:
+            _audit_fresh_process(ctx, cat, 2 * k)          # a boundary-value variant
+            _audit_fresh_process(ctx, cat, 2 * k + 1)      # an initial-value variant
+
+
+
+    _run_parts(ctx, "oracle", [("scaled-equations", part_scaled_equations), ("amplitude-homogeneity", part_homogeneity),
+                               ("end-of-domain", part_end_of_domain), ("small-meshes", part_small_meshes),
+                               ("fresh-process", part_fresh_process)])
 
 
 def _audit_fresh_process(ctx, cat, k):
@@ -2600,6 +2984,153 @@ def _audit_fresh_process(ctx, cat, k):
         last = p.stderr.strip().splitlines()[-1] if p.stderr.strip() else f"exit code {p.returncode}"
         ctx.fail("oracle", "ode.solve_ode:first-call-in-fresh-process",
                  f"a fresh interpreter whose first library call is {what} through {prob['tf']}: {last}", witness=prob, snippet=snippet)
+
+
+# ---- round 4: classes 14, 15, 16, 18 ------------------------------------------------------------------------------------------
+# (catalogue entry that carries the flags, constructor template, parameter values exactly representable in single precision, span)
+PARAM_TFS = [
+    ("BeckeRTransform", "BeckeRTransform({}, {})", (0.5, 2.0), (-0.5, 0.4)),
+    ("KnowlesRTransform:k=3", "KnowlesRTransform({}, {}, {})", (0.5, 2.0, 3.0), (-0.5, 0.4)),
+    ("HandyRTransform:m=2", "HandyRTransform({}, {}, {})", (0.5, 2.0, 2.0), (-0.5, 0.4)),
+    ("HandyModRTransform:m=3", "HandyModRTransform({}, {}, {})", (0.5, 16.0, 3.0), (-0.5, 0.4)),
+    ("MultiExpRTransform", "MultiExpRTransform({}, {})", (0.5, 2.0), (-0.5, 0.4)),
+    ("ExpRTransform", "ExpRTransform({}, {}, b={})", (0.5, 8.0, 4.0), (0.3, 1.2)),
+    ("PowerRTransform", "PowerRTransform({}, {}, b={})", (0.5, 8.0, 4.0), (0.3, 1.2)),
+    ("LinearFiniteRTransform", "LinearFiniteRTransform({}, {})", (0.5, 8.0), (-0.5, 0.4)),
+    ("Inverse(BeckeRTransform)", "InverseRTransform(BeckeRTransform({}, {}))", (0.25, 2.0), (0.4, 1.8)),
+    ("LinearInfiniteRTransform", "LinearInfiniteRTransform({}, {}, b={})", (0.5, 8.0, 4.0), (0.3, 1.2)),
+    ("HyperbolicRTransform", "HyperbolicRTransform({}, {})", (0.5, 0.0625), (0.3, 1.2)),
+    ("Inverse(HandyModRTransform):m=3", "InverseRTransform(HandyModRTransform({}, {}, {}))", (0.25, 16.0, 3.0), (0.4, 1.8)),
+]
+# measured on the unchanged tree: int / np.int64 / np.float64 / 0-d parameters give bit-identical answers; np.float32 parameters
+# make rtransform compute in single precision (rows off by up to 1e-6: the precision the caller chose, DESIGN 8.3) - asked: 5e-5
+PARAM_KINDS = [
+    ("python-int", lambda v: f"{int(v)}" if float(v).is_integer() else f"{v!r}", 1e-12),
+    ("np.int64", lambda v: f"np.int64({int(v)})" if float(v).is_integer() else f"np.float64({v!r})", 1e-12),
+    ("0-d-array", lambda v: f"np.array({v!r})", 1e-12),
+    ("np.float64", lambda v: f"np.float64({v!r})", 1e-12),
+    ("np.float32", lambda v: f"np.float32({v!r})", 5e-5),
+    ("0-d-int-array", lambda v: f"np.array({int(v)})" if float(v).is_integer() else f"np.array({v!r})", 1e-12),
+]
+BAD_CALLS = ["ivp:too-few-initial-values", "ivp:order-4-with-transform", "ivp:span-outside-the-domain", "ivp:coefficient-of-a-wrong-type",
+             "ivp:right-hand-side-raises", "ivp:unknown-method", "bvp:too-many-conditions", "bvp:node-budget-of-3",
+             "bvp:condition-on-a-row-that-does-not-exist", "bvp:guess-of-a-wrong-shape", "callable:point-list"]
+
+
+def _oracle_round4(ctx, cat, only, large):
+    rng = ctx.rng
+    orders = sorted((only or {}).get("orders", {1, 2, 3}))
+    kinds = sorted((only or {}).get("kinds", {"ivp", "bvp"}))
+    more = large or ctx.thorough
+    k0 = rng.randrange(1000)
+
+    def run(fn, case, keys, describe, tag):
+        return _audit_call(ctx, fn, (case,), lambda t: keys.get(t, keys["*"]), describe, case,
+                           _guarded(f"case = {case!r}\n", f"{fn}(case)"), [fn, case], tag, nontrivial=True)
+
+    def part_param_kinds():
+        k = k0
+        plan = [(kind, i) for kind in kinds for i in range((len(PARAM_TFS) if more else 2) if kind == "ivp" else (4 if more else 1))]
+        for kind, i in plan:
+            k += 1
+            name, tmpl, params, span = PARAM_TFS[(k0 + 5 * i + (3 if kind == "bvp" else 0)) % len(PARAM_TFS)]
+            if kind == "bvp" and cat[name][2].get("no_bvp"):
+                name, tmpl, params, span = PARAM_TFS[0]
+            order = orders[k % len(orders)]
+            if kind == "ivp":
+                prob = gen_problem(rng, order, name, cat)
+                prob.update(method="DOP853", rtol=1e-10, atol=1e-12, span=list(span))
+            else:
+                prob = _gen_bvp_problem(rng, order, name, cat, "mixed")
+                prob.update(span=list(span))
+            pick = PARAM_KINDS if more else [PARAM_KINDS[(k + 2 * j) % len(PARAM_KINDS)] for j in range(3)]
+            case = {"prob": prob, "kind": kind, "tf_float": tmpl.format(*[repr(v) for v in params]),
+                    "variants": [[label, tmpl.format(*[f(v) for v in params]), bound] for label, f, bound in pick],
+                    "acc": IVP_FACTOR * 1e-10 if kind == "ivp" else BVP_ACCEPT * cat[name][2].get("bvp_tol_factor", 1.0)}
+            prob["tf"] = case["tf_float"]
+            run("check_param_kinds", case,
+                {"transform-parameters": f"ode.solve_ode_{kind}:transform-parameter-kinds", "accuracy": f"ode.solve_ode_{kind}:order{order}:{name}",
+                 "*": f"ode.solve_ode_{kind}:transform-parameter-kinds:raised"},
+                f"solve_ode_{kind}, order {order}, {case['tf_float']} with its parameters as {[v[0] for v in case['variants']]}",
+                f"audit:{kind}:transform-parameter-kinds")
+
+    def part_argument_forms():
+        k = k0
+        for kind in kinds:
+            for with_tf in ((True, False) if not more else (True, False, True, True)):
+                k += 1
+                pool = [n for n in R3_TF_NAMES if n != "none" and not cat[n][2].get("no_bvp")]
+                name = pool[k % len(pool)] if with_tf else "none"
+                order = orders[k % len(orders)]
+                prob = gen_problem(rng, order, name, cat) if kind == "ivp" else _gen_bvp_problem(rng, order, name, cat, "mixed")
+                case = {"prob": prob, "kind": kind, "acc": ACC_DEFAULT_IVP if kind == "ivp" else ACC_DEFAULT_BVP}
+                run("check_argument_forms", case,
+                    {"argument-form": f"ode.solve_ode_{kind}:argument-forms", "default-tolerances": f"ode.solve_ode_{kind}:default-tolerances",
+                     "*": f"ode.solve_ode_{kind}:argument-forms:raised"},
+                    f"solve_ode_{kind}, order {order}, {prob['tf'] or 'no transform'}: positional / keyword / omitted / explicit-default forms of the call",
+                    f"audit:{kind}:argument-forms")
+
+    def part_shared_arguments():
+        k = k0
+        for i in range(6 if more else 2):
+            k += 1
+            order = orders[(k + i) % len(orders)]
+            tf = ([""] + _TYPED_TFS_12[:-1])[(k + 3 * i) % len(_TYPED_TFS_12)]
+            steps = [["ivp", "bvp", "ivp", "bvp-guess-is-the-mesh", "bvp", "ivp"], ["bvp", "ivp", "bvp", "ivp"]][i % 2]
+            steps = [st for st in steps if st.split("-")[0] in kinds] or ["ivp"]
+            case = {"order": order, "tf": tf, "steps": steps, "method": ["DOP853", "RK45", "LSODA"][k % 3]}
+            run("check_shared_arguments", case,
+                {"caller-data": "ode.solve_ode:caller-data:views-into-larger-arrays", "shared-argument": "ode.solve_ode:shared-argument-objects",
+                 "canonical": "ode.solve_ode_ivp:constant-coefficients", "*": "ode.solve_ode:shared-argument-objects:raised"},
+                f"order {order}, {tf or 'no transform'}: one array object as y0 / boundary values, one mesh as mesh / evaluation points / guess, "
+                f"views into larger arrays, steps {steps}", "audit:shared-argument-objects")
+
+    def part_raising_calls():
+        k = k0
+        names = [n for n in cat if n != "none" and not cat[n][2].get("affine") and not cat[n][2].get("no_bvp")
+                 and not cat[n][2].get("decreasing") and not cat[n][2].get("np_span") and not cat[n][2].get("bvp_tol_factor")]
+        for i in range(4 if more else 1):
+            k += 1
+            name = "none" if (more and i == 3) else names[(k + 7 * i) % len(names)]
+            order = orders[(k + i) % len(orders)]
+            prob = _gen_bvp_problem(rng, order, name, cat, "mixed")
+            prob.update(method="DOP853", rtol=1e-10, atol=1e-12)
+            bad = list(BAD_CALLS)
+            case = {"prob": prob, "bad": bad, "both": bool(more),
+                    "acc": {"ivp": IVP_FACTOR * 1e-10, "bvp": BVP_ACCEPT * cat[name][2].get("bvp_tol_factor", 1.0)}}
+            run("check_raise_no_trace", case,
+                {"trace-of-a-raising-call": "ode.solve_ode:trace-of-a-raising-call", "caller-data": "ode.solve_ode:caller-data:after-a-raising-call",
+                 "accuracy": f"ode.solve_ode_ivp:order{order}:{name}", "*": "ode.solve_ode:trace-of-a-raising-call:raised"},
+                f"order {order}, {prob['tf'] or 'no transform'}: accepted solves before and after the calls {bad} that end in an exception",
+                "audit:raising-calls-leave-no-trace")
+
+    _run_parts(ctx, "oracle", [("transform-parameter-kinds", part_param_kinds), ("argument-forms", part_argument_forms),
+                               ("shared-argument-objects", part_shared_arguments), ("raising-calls", part_raising_calls)])
+
+
+def _run_parts(ctx, stage, parts):
+    """Crash-proofing (round 4): every part runs; an exception raised by the library (innermost frame inside grid / scipy / numpy /
+    sympy) is a failure of its own with the key `<part>:raises`, any other exception (harness, driver, translator) is kept and
+    the first of them is raised again after all parts have run - so one part cannot hide what the others find."""
+    import traceback
+    first = None
+    for name, fn in parts:
+        try:
+            fn()
+        except Exception as e:          # noqa: BLE001
+            tb = traceback.extract_tb(e.__traceback__)
+            where = tb[-1].filename if tb else ""
+            in_library = any(f"/{m}/" in where for m in ("grid", "scipy", "numpy", "sympy", "mpmath"))
+            if in_library or isinstance(e, SolveTimeout):
+                ctx.fail(stage, f"ode.{name}:raises",
+                         f"part '{name}' of the {stage}: the library raised {type(e).__name__}: {e} at {where}:{tb[-1].lineno if tb else '?'} "
+                         f"outside every guarded call", witness={"part": name, "traceback": traceback.format_exception(e)[-6:]})
+            else:
+                ctx.info(f"part '{name}' of the {stage} stopped with {type(e).__name__}: {e} (re-raised after the remaining parts)")
+                if first is None:
+                    first = e
+    if first is not None:
+        raise first
 
 
 # ---- 7. a correspondence disagreement -> a concrete failing input of the property ------------------------------------------
